@@ -35,6 +35,25 @@ Round 5 (facts derived independently of the statement shape):
    generator consumed by the first search and continued by the second is the candidates after the stop.
  - N2-early-exit: `if <condition on the count>: return <pair of 1 / count>` before the search is judged on its own and taken out.
  - N4-result-table: a hand-written table of earlier results: writer key == reader key, key holds every argument.
+
+Rounds 6-7 (soundness audit of every VIOLATED verdict; the assumptions are written next to each one as `ASSUMPTION...` comments):
+ - N3-no-stuck-iteration: VIOLATED needs (S1) the loop state to be plain names only (no attribute / element / iterator / foreign call
+   in the loop) and (S2) the decisions on the state-preserving path to be jointly satisfiable (`_path_feasible`: atoms `v <= B + k`,
+   `v > B + k`, `M % v (!)= 0`, exit conditions of the inner loops on the way); otherwise UNDECIDED.
+ - normal form: small immutable records (NamedTuple / namedtuple / frozen dataclass) are written back as one local per field
+   (`_scalarise_records`, straight-line methods inlined), copies are propagated forward inside a block (`_propagate_copies`).
+ - N2-bound-on-every-path: abstract walk deciding that the first extent was compared with its bound on every path to the return;
+   VIOLATED only when a path exists on which it never is, its value does not depend on the bound by data or control, and no decision
+   on the path that depends on the bound could bound it (a start value computed from the other bound that skips the loop holding the
+   only test).
+ - order of the returned pair: decided end to end (search -> compute_2d_process_grid -> call site), an even number of reversals holds.
+ - the standard layouts are found by role when setups.py no longer writes them as literals (`_standard_layouts`: the dictionary
+   handed to getLayoutHandler followed to a module-level table / a function returning a copy of it); `f(*[E(k) for k in range(N)], m)`
+   and `min(npts[d] for d in sorted({o[k] for o in T.values()}))` (through a one-line helper) are read.
+ - softened to UNDECIDED: `global` declarations, in-place changes of possibly copied (sliced) memoised lists, changes of the process
+   count that are not literal shifts, stores by computed name that cannot be shown to hit `npts`, split communicators whose size is
+   adjusted by other than literal shifts, handlers that go on with a computed grid, a lone extent store when the other is stored
+   elsewhere, tables starting at 2 after an early exit for the candidate 1, failure-guard forms when there are several raise/assert.
 """
 from __future__ import annotations
 
@@ -323,18 +342,314 @@ def _bind_defaults(fn, caller_trees, keep=3):
     return bound
 
 
+# ---------------------------------------------------------------------------------------------------------
+# small immutable records (NamedTuple / namedtuple / frozen dataclass) written back as one local per field
+# ---------------------------------------------------------------------------------------------------------
+def _record_classes(tree):
+    """{class name: {'fields': [names], 'defaults': {name: expr}, 'methods': {name: FunctionDef}}} for the module-level record types
+    whose construction, field access and iteration are the generated ones (no dunder method of their own)"""
+    recs = {}
+    for st in tree.body:
+        if isinstance(st, ast.ClassDef) and not st.keywords:
+            is_nt = len(st.bases) == 1 and src(st.bases[0]).split(".")[-1] == "NamedTuple"
+            frozen_dc = not st.bases and len(st.decorator_list) == 1 and isinstance(st.decorator_list[0], ast.Call) \
+                and src(st.decorator_list[0].func).split(".")[-1] == "dataclass" \
+                and any(k.arg == "frozen" and isinstance(k.value, ast.Constant) and k.value.value is True for k in st.decorator_list[0].keywords)
+            if not (is_nt and not st.decorator_list) and not frozen_dc:
+                continue
+            fields, defaults, methods, ok = [], {}, {}, True
+            for b in st.body:
+                if isinstance(b, ast.AnnAssign) and isinstance(b.target, ast.Name):
+                    fields.append(b.target.id)
+                    if b.value is not None:
+                        defaults[b.target.id] = b.value
+                elif isinstance(b, ast.FunctionDef) and not b.name.startswith("__") and not b.decorator_list:
+                    methods[b.name] = b
+                elif isinstance(b, ast.Expr) and isinstance(b.value, ast.Constant):
+                    continue
+                else:
+                    ok = False
+            if ok and fields and all(isinstance(d, ast.Constant) for d in defaults.values()):
+                recs[st.name] = {"fields": fields, "defaults": defaults, "methods": methods, "iterable": is_nt}
+        elif isinstance(st, ast.Assign) and len(st.targets) == 1 and isinstance(st.targets[0], ast.Name) and isinstance(st.value, ast.Call) \
+                and src(st.value.func).split(".")[-1] == "namedtuple" and len(st.value.args) == 2 and not st.value.keywords:
+            spec = st.value.args[1]
+            if isinstance(spec, ast.Constant) and isinstance(spec.value, str):
+                fields = spec.value.replace(",", " ").split()
+            elif isinstance(spec, (ast.Tuple, ast.List)) and all(isinstance(x, ast.Constant) and isinstance(x.value, str) for x in spec.elts):
+                fields = [x.value for x in spec.elts]
+            else:
+                continue
+            if fields and all(f.isidentifier() for f in fields):
+                recs[st.targets[0].id] = {"fields": fields, "defaults": {}, "methods": {}, "iterable": True}
+    # a name bound twice is not a record type
+    for nm in list(recs):
+        if sum(1 for n in ast.walk(tree) if (isinstance(n, ast.Name) and n.id == nm and isinstance(n.ctx, ast.Store)) or
+               (isinstance(n, (ast.ClassDef, ast.FunctionDef)) and n.name == nm)) != 1:
+            del recs[nm]
+    return recs
+
+
+def _inline_record_method(mdef, field_exprs, call):
+    """the value of `record.method(args)` as one expression over the fields, when the method is straight-line code
+    (`t = <expr>` ... `return <expr>`) over its parameters and the fields; None otherwise"""
+    a = mdef.args
+    if a.vararg or a.kwarg or a.kwonlyargs or a.posonlyargs or a.defaults or not a.args:
+        return None
+    params = [x.arg for x in a.args]
+    bound = _bind(call, params[1:])
+    if bound is None or len(bound) != len(params) - 1:
+        return None
+    env = {p: v for p, v in bound.items()}
+    if not all(isinstance(v, (ast.Name, ast.Constant)) for v in env.values()):
+        return None
+    self_nm = params[0]
+    body = [b for b in mdef.body if not (isinstance(b, ast.Expr) and isinstance(b.value, ast.Constant))]
+    if not body or not isinstance(body[-1], ast.Return) or body[-1].value is None:
+        return None
+
+    class S(ast.NodeTransformer):
+        bad = False
+
+        def visit_Attribute(self, n):
+            if isinstance(n.value, ast.Name) and n.value.id == self_nm:
+                if n.attr in field_exprs and isinstance(n.ctx, ast.Load):
+                    return copy.deepcopy(field_exprs[n.attr])
+                self.bad = True
+                return n
+            return self.generic_visit(n)
+
+        def visit_Name(self, n):
+            if n.id == self_nm:
+                self.bad = True
+            elif n.id in env and isinstance(n.ctx, ast.Load):
+                return copy.deepcopy(env[n.id])
+            return n
+    for b in body[:-1]:
+        if not (isinstance(b, ast.Assign) and len(b.targets) == 1 and isinstance(b.targets[0], ast.Name) and b.targets[0].id not in params):
+            return None
+        s = S()
+        v = s.visit(copy.deepcopy(b.value))
+        if s.bad or any(isinstance(x, (ast.Lambda, ast.NamedExpr, ast.Yield, ast.Await, ast.ListComp, ast.GeneratorExp, ast.SetComp, ast.DictComp))
+                        for x in ast.walk(v)):
+            return None
+        env[b.targets[0].id] = v
+    s = S()
+    out = s.visit(copy.deepcopy(body[-1].value))
+    if s.bad or sum(1 for _ in ast.walk(out)) > 400:
+        return None
+    for x in ast.walk(out):
+        ast.copy_location(x, call)
+    return out
+
+
+def _scalarise_records(fn, recs):
+    """locals of fn that only ever hold a record built in fn (`x = C(a, b)`, `x = y`, `x = y._replace(f=v)`) and are only used field
+    by field (`x.f`, `x[0]`, `tuple(x)`, `a, b = x`, `return x`, a straight-line method) are replaced by one local per field, `x__f`.
+    Valid for every execution: the records are immutable, so a copy of the reference is a copy of the fields.  Everything is
+    checked before anything is changed -> the names replaced, [] when the function is left as it is"""
+    if not recs:
+        return []
+    par = {}
+    for n in ast.walk(fn):
+        for ch in ast.iter_child_nodes(n):
+            par[id(ch)] = n
+    params = {a.arg for a in fn.args.args + fn.args.kwonlyargs + fn.args.posonlyargs}
+    cls = {}
+
+    def ctor(v):
+        return v.func.id if isinstance(v, ast.Call) and isinstance(v.func, ast.Name) and v.func.id in recs else None
+
+    def replace_of(v):
+        return v.func.value.id if isinstance(v, ast.Call) and isinstance(v.func, ast.Attribute) and v.func.attr == "_replace" \
+            and isinstance(v.func.value, ast.Name) and not v.args else None
+    for n in ast.walk(fn):
+        if isinstance(n, ast.Assign) and len(n.targets) == 1 and isinstance(n.targets[0], ast.Name) and ctor(n.value):
+            if cls.setdefault(n.targets[0].id, ctor(n.value)) != ctor(n.value):
+                return []
+    changed = True
+    while changed:
+        changed = False
+        for n in ast.walk(fn):
+            if isinstance(n, ast.Assign) and len(n.targets) == 1 and isinstance(n.targets[0], ast.Name) and n.targets[0].id not in cls:
+                srcnm = n.value.id if isinstance(n.value, ast.Name) else replace_of(n.value)
+                if srcnm in cls:
+                    cls[n.targets[0].id] = cls[srcnm]
+                    changed = True
+    if not cls or set(cls) & params:
+        return []
+    if any(isinstance(n, (ast.Global, ast.Nonlocal, ast.Lambda, ast.FunctionDef, ast.ClassDef)) for st in fn.body for n in ast.walk(st)):
+        return []
+    taken = {n.id for n in ast.walk(fn) if isinstance(n, ast.Name)} | params
+    if any(f"{x}__{f}" in taken for x in cls for f in recs[cls[x]]["fields"]):
+        return []
+    # ---- every store and every use must be one of the followed forms
+    for n in ast.walk(fn):
+        if not (isinstance(n, ast.Name) and n.id in cls):
+            continue
+        R = recs[cls[n.id]]
+        p = par.get(id(n))
+        if isinstance(n.ctx, ast.Store):
+            v = p.value if isinstance(p, ast.Assign) and len(p.targets) == 1 and p.targets[0] is n else None
+            if v is None:
+                return []
+            if ctor(v) == cls[n.id]:
+                b = _bind(v, R["fields"])
+                if b is None or any(f not in b and f not in R["defaults"] for f in R["fields"]):
+                    return []
+                # the fields are assigned one after the other: a later argument must not read an earlier field of the same variable
+                for i, f in enumerate(R["fields"]):
+                    e = b.get(f)
+                    if e is not None and any(isinstance(x, ast.Name) and x.id == n.id for x in ast.walk(e)) and i > 0:
+                        return []
+            elif isinstance(v, ast.Name) and cls.get(v.id) == cls[n.id]:
+                pass
+            elif replace_of(v) and cls.get(replace_of(v)) == cls[n.id] and all(k.arg in R["fields"] for k in v.keywords) \
+                    and not any(isinstance(x, ast.Name) and x.id in cls for k in v.keywords for x in ast.walk(k.value)):
+                pass
+            else:
+                return []
+            continue
+        if not isinstance(n.ctx, ast.Load):
+            return []
+        if isinstance(p, ast.Attribute) and p.value is n and isinstance(p.ctx, ast.Load):
+            pp = par.get(id(p))
+            if p.attr in R["fields"]:
+                continue
+            if p.attr in R["methods"] and isinstance(pp, ast.Call) and pp.func is p:
+                continue
+            if p.attr == "_replace" and isinstance(pp, ast.Call) and pp.func is p and isinstance(par.get(id(pp)), ast.Assign):
+                continue
+            return []
+        if isinstance(p, ast.Call) and isinstance(p.func, ast.Name) and p.func.id in ("tuple", "list") and p.args == [n] and not p.keywords \
+                and R["iterable"]:
+            continue
+        if isinstance(p, ast.Return) and R["iterable"]:
+            continue
+        if isinstance(p, ast.Subscript) and p.value is n and isinstance(p.ctx, ast.Load) and _int_const(p.slice) and R["iterable"] \
+                and -len(R["fields"]) <= p.slice.value < len(R["fields"]):
+            continue
+        if isinstance(p, ast.Assign) and p.value is n and len(p.targets) == 1:
+            t = p.targets[0]
+            if isinstance(t, ast.Name) and cls.get(t.id) == cls[n.id]:
+                continue
+            if isinstance(t, (ast.Tuple, ast.List)) and R["iterable"] and len(t.elts) == len(R["fields"]) \
+                    and all(isinstance(x, ast.Name) and x.id not in cls for x in t.elts):
+                continue
+        return []
+    # ---- rewrite
+    def fld(x, f, node, ctx=ast.Load):
+        return ast.copy_location(ast.Name(id=f"{x}__{f}", ctx=ctx()), node)
+
+    class X(ast.NodeTransformer):
+        def visit_Attribute(self, n):
+            if isinstance(n.value, ast.Name) and n.value.id in cls and n.attr in recs[cls[n.value.id]]["fields"]:
+                return fld(n.value.id, n.attr, n)
+            return self.generic_visit(n)
+
+        def visit_Subscript(self, n):
+            if isinstance(n.value, ast.Name) and n.value.id in cls and _int_const(n.slice):
+                return fld(n.value.id, recs[cls[n.value.id]]["fields"][n.slice.value], n)
+            return self.generic_visit(n)
+
+        def visit_Call(self, n):
+            if isinstance(n.func, ast.Name) and n.func.id in ("tuple", "list") and len(n.args) == 1 and isinstance(n.args[0], ast.Name) \
+                    and n.args[0].id in cls:
+                x = n.args[0].id
+                elts = [fld(x, f, n) for f in recs[cls[x]]["fields"]]
+                return ast.copy_location((ast.Tuple if n.func.id == "tuple" else ast.List)(elts=elts, ctx=ast.Load()), n)
+            if isinstance(n.func, ast.Attribute) and isinstance(n.func.value, ast.Name) and n.func.value.id in cls \
+                    and n.func.attr in recs[cls[n.func.value.id]]["methods"]:
+                x, R = n.func.value.id, recs[cls[n.func.value.id]]
+                n.args = [self.visit(a) for a in n.args]
+                for k in n.keywords:
+                    k.value = self.visit(k.value)
+                inl = _inline_record_method(R["methods"][n.func.attr], {f: fld(x, f, n) for f in R["fields"]}, n)
+                if inl is not None:
+                    return inl
+                n.func.value = ast.copy_location(ast.Call(func=ast.Name(id=cls[x], ctx=ast.Load()), args=[fld(x, f, n) for f in R["fields"]],
+                                                          keywords=[]), n)
+                return n
+            return self.generic_visit(n)
+
+        def visit_Return(self, n):
+            if isinstance(n.value, ast.Name) and n.value.id in cls:
+                x = n.value.id
+                n.value = ast.copy_location(ast.Tuple(elts=[fld(x, f, n) for f in recs[cls[x]]["fields"]], ctx=ast.Load()), n)
+                return n
+            return self.generic_visit(n)
+
+    def expand(st):
+        """the statements that replace the assignment `st`, or None when it is not a store of / from a record variable"""
+        if not (isinstance(st, ast.Assign) and len(st.targets) == 1):
+            return None
+        t, v = st.targets[0], st.value
+        if isinstance(t, ast.Name) and t.id in cls:
+            R = recs[cls[t.id]]
+            if ctor(v):
+                b = _bind(v, R["fields"])
+                vals = {f: X().visit(b[f]) if f in b else copy.deepcopy(R["defaults"][f]) for f in R["fields"]}
+            elif isinstance(v, ast.Name):
+                vals = {f: fld(v.id, f, st) for f in R["fields"]}
+            else:
+                y = replace_of(v)
+                vals = {f: fld(y, f, st) for f in R["fields"]}
+                for k in v.keywords:
+                    vals[k.arg] = X().visit(k.value)
+            return [ast.copy_location(ast.Assign(targets=[fld(t.id, f, st, ast.Store)], value=vals[f]), st) for f in R["fields"]]
+        if isinstance(t, (ast.Tuple, ast.List)) and isinstance(v, ast.Name) and v.id in cls:
+            return [ast.copy_location(ast.Assign(targets=[e], value=fld(v.id, f, st)), st) for e, f in zip(t.elts, recs[cls[v.id]]["fields"])]
+        return None
+    for blk in list(_blocks_of(fn)):
+        k = 0
+        while k < len(blk):
+            new = expand(blk[k])
+            if new is not None:
+                blk[k:k + 1] = new
+                k += len(new)
+            else:
+                k += 1
+    X().visit(fn)
+    ast.fix_missing_locations(fn)
+    return sorted(cls)
+
+
+def _propagate_copies(fn):
+    """after `x = y` (two plain locals) the two names hold the same value until one of them is stored again: in the statements
+    that follow in the same block, up to the first one that stores either name, a read of `x` is written `y`.  The copy itself
+    stays, so every other read of `x` still sees its value."""
+    params = {a.arg for a in fn.args.args + fn.args.kwonlyargs + fn.args.posonlyargs}
+    done = 0
+    for blk in list(_blocks_of(fn)):
+        for k, st in enumerate(blk):
+            if not (isinstance(st, ast.Assign) and len(st.targets) == 1 and isinstance(st.targets[0], ast.Name)
+                    and isinstance(st.value, ast.Name) and st.value.id != st.targets[0].id and st.targets[0].id not in params):
+                continue
+            x, y = st.targets[0].id, st.value.id
+            for later in blk[k + 1:]:
+                if any(isinstance(n, ast.Name) and isinstance(n.ctx, (ast.Store, ast.Del)) and n.id in (x, y) for n in ast.walk(later)):
+                    break
+                if any(isinstance(n, ast.Name) and n.id == x and isinstance(n.ctx, ast.Load) for n in ast.walk(later)):
+                    _Subst(x, ast.Name(id=y, ctx=ast.Load())).visit(later)
+                    done += 1
+    return done
+
+
 def _normal_form(tree, names, caller_trees=()):
     """copy of the module with the named functions in local normal form -> (tree copy, {name: FunctionDef})"""
     t2 = copy.deepcopy(tree)
     out = {}
+    recs = _record_classes(t2)
     for st in t2.body:
         if isinstance(st, ast.FunctionDef) and st.name in names:
             if caller_trees and st.name == FROM_MAX:
                 st._bound_defaults = _bind_defaults(st, [t2] + list(caller_trees), keep=3)
+            st._records = _scalarise_records(st, recs)
             _split_tuple_assigns(st)
             _shift_counters(st)
             _coalesce_copies(st)
             _inline_invariants(st)
+            _propagate_copies(st)
             ast.fix_missing_locations(st)
             out[st.name] = st
     for n in ast.walk(t2):
@@ -751,6 +1066,33 @@ def _gen_bound(fn, tree, e, npts):
     if isinstance(idx, ast.Name) and idx.id == t:
         if isinstance(it, (ast.Tuple, ast.List)) and it.elts and all(_int_const(x) for x in it.elts):
             return None, [("const", [(x.value,) for x in it.elts], src(it))]
+        # the dimensions themselves come from a table of orderings: `min(npts[d] for d in sorted({o[k] for o in T.values()}))`,
+        # possibly through a module-level function that only returns that expression, called with a literal position
+        it2 = it
+        for _ in range(4):
+            while isinstance(it2, ast.Call) and isinstance(it2.func, ast.Name) and it2.func.id in ("sorted", "list", "tuple", "set", "frozenset") \
+                    and len(it2.args) == 1 and not it2.keywords:
+                it2 = it2.args[0]
+            if isinstance(it2, ast.Call) and isinstance(it2.func, ast.Name) and not it2.keywords and tree is not None \
+                    and all(_int_const(a) for a in it2.args):
+                defs = [st for st in tree.body if isinstance(st, ast.FunctionDef) and st.name == it2.func.id and not st.decorator_list]
+                body = [b for b in defs[0].body if not (isinstance(b, ast.Expr) and isinstance(b.value, ast.Constant))] if len(defs) == 1 else []
+                ps = _params(defs[0]) if len(defs) == 1 else []
+                if len(body) == 1 and isinstance(body[0], ast.Return) and body[0].value is not None and len(ps) == len(it2.args) \
+                        and not (set(ps) & _written(defs[0])):
+                    e2 = copy.deepcopy(body[0].value)
+                    for p_, a_ in zip(ps, it2.args):
+                        e2 = _Subst(p_, a_).visit(e2)
+                    it2 = e2
+                    continue
+            break
+        if isinstance(it2, (ast.SetComp, ast.ListComp, ast.GeneratorExp)) and len(it2.generators) == 1 and not it2.generators[0].ifs \
+                and isinstance(it2.generators[0].target, ast.Name):
+            o = it2.generators[0].target.id
+            e2 = it2.elt
+            if isinstance(e2, ast.Subscript) and isinstance(e2.value, ast.Name) and e2.value.id == o and _int_const(e2.slice) and e2.slice.value >= 0:
+                alts = _table_alts(fn, tree, it2.generators[0].iter)
+                return (e2.slice.value, alts) if alts else None
         return None
     if isinstance(idx, ast.Subscript) and isinstance(idx.value, ast.Name) and idx.value.id == t and _int_const(idx.slice) and idx.slice.value >= 0:
         alts = _table_alts(fn, tree, it)
@@ -818,6 +1160,8 @@ def _result_sources(fn, calls):
                     and len(d0[0][1].targets) == 1 and isinstance(d0[0][1].targets[0], (ast.Tuple, ast.List)) \
                     and [getattr(x, "id", None) for x in d0[0][1].targets[0].elts] == names:
                 classify(d0[0][1].value, d0[0][1], depth + 1)
+            elif any(_pair_order(fn, e, c) == (1, 0) for c in calls):
+                out.append(("swapped", e, st))       # the two extents of the search, handed on in the other order
             else:
                 out.append(("foreign", e, st))
         else:
@@ -922,6 +1266,18 @@ def _pair_verdict(fn, e, st, npts, count, std, in_handler):
             unrec.append(t2)
     if unrec:
         return None, f"{ctxt}; the condition `{src(unrec[0])[:60]}` on the way to it is not followed"
+    # ASSUMPTION of the VIOLATED verdict below: the `if` statements around and before the statement are the only places where a
+    # bound of the process count can be established.  Checked: an `assert`, a loop, or a call that is handed the process count or
+    # the grid sizes (a validating helper) before the statement can establish a bound this walk does not see -> not decided.
+    unseen = []
+    for blk, k in _chain_to(fn.body, st) or []:
+        for sib in blk[:k]:
+            for x in ast.walk(sib):
+                if isinstance(x, (ast.Assert, ast.While, ast.For)):
+                    unseen.append(x)
+                elif isinstance(x, ast.Call) and not (isinstance(x.func, ast.Name) and x.func.id in _PURE_CALLS | {FROM_MAX}) and \
+                        any(isinstance(a, ast.Name) and a.id in (npts, count) for a in list(x.args) + [k_.value for k_ in x.keywords]):
+                    unseen.append(x)
     kinds = []
     for x in e.elts:
         kinds.append("one" if _int_const(x) and x.value == 1 else "count" if isinstance(x, ast.Name) and x.id == count else None)
@@ -933,6 +1289,9 @@ def _pair_verdict(fn, e, st, npts, count, std, in_handler):
         dims = {o[k] for o in std}
         if kind == "count" and not one and not dims <= known:
             miss = sorted(dims - known)
+            if unseen:
+                return None, (f"{ctxt}; `{src(unseen[0]).splitlines()[0][:60]}` (line {unseen[0].lineno}) before it may establish a bound of "
+                              f"`{count}` that is not followed: cannot decide that the extent `{count}` can exceed {npts}[{miss[0]}]")
             return False, (f"{ctxt}: `{src(e)}`, reached under {cond}. Along this path the extent `{count}` laid on process direction {k} is "
                            f"known to be <= {npts}[d] only for d in {sorted(known & dims)}, but the standard layouts distribute the dimensions "
                            f"{sorted(dims)} along that direction: when {npts}[{miss[0]}] < {count} a process is left without points of "
@@ -961,8 +1320,17 @@ def result_of_search(chk, fn, search_fn, calls, npts, count, std, kw):
         for x in _preorder(h.body):
             in_handler[id(x)] = (h, catches)
     nbad = 0
+    kinds_seen = {k_ for k_, _e, _s in sources}
+    # the order in which the pair of the search is handed on is part of the end-to-end contract decided at the call sites
+    chk._c20_grid_swapped = True if kinds_seen == {"swapped"} else False if "swapped" not in kinds_seen else None
     for kind, e, st in sources:
         if kind == "search":
+            continue
+        if kind == "swapped":
+            if chk._c20_grid_swapped is None:
+                nbad += 1
+                chk.ob(rule, st, construct, None, f"`{src(st).splitlines()[0][:70]}` hands the pair of the search back in swapped order, another "
+                       "return in the order of the search: the order the callers see is not one", **kw)
             continue
         nbad += 1
         if st is None:
@@ -998,13 +1366,139 @@ def result_of_search(chk, fn, search_fn, calls, npts, count, std, kw):
                "from the caller", **kw)
 
 
+def _expand_star(fn, tree, call):
+    """`f(*L, m)` with L (a local assigned once) a list / tuple display, or a comprehension `[E(v) for v in range(N)]` over a literal
+    range (N a number or a module-level integer constant): the call with the elements written out; the call itself otherwise"""
+    if not any(isinstance(a, ast.Starred) for a in call.args):
+        return call
+    args = []
+    for a in call.args:
+        if not isinstance(a, ast.Starred):
+            args.append(a)
+            continue
+        v, adj = _resolve(fn, a.value)
+        if v is None or adj:
+            return call
+        if isinstance(v, (ast.List, ast.Tuple)) and not any(isinstance(x, ast.Starred) for x in v.elts):
+            args += list(v.elts)
+            continue
+        if isinstance(v, (ast.ListComp, ast.GeneratorExp)) and len(v.generators) == 1 and not v.generators[0].ifs \
+                and isinstance(v.generators[0].target, ast.Name):
+            it = v.generators[0].iter
+            n = None
+            if isinstance(it, ast.Call) and isinstance(it.func, ast.Name) and it.func.id == "range" and len(it.args) == 1 and not it.keywords:
+                n = it.args[0]
+                if isinstance(n, ast.Name) and tree is not None:
+                    n = _module_const(tree, n.id)
+            if n is not None and _int_const(n) and 0 < n.value <= 8:
+                for k in range(n.value):
+                    args.append(_Subst(v.generators[0].target.id, ast.Constant(value=k)).visit(copy.deepcopy(v.elt)))
+                continue
+        return call
+    new = ast.copy_location(ast.Call(func=call.func, args=args, keywords=call.keywords), call)
+    for x in ast.walk(new):
+        if not hasattr(x, "lineno"):
+            ast.copy_location(x, call)
+    return new
+
+
+def _layout_rows(e, f, trees, depth=0):
+    """the orderings a layouts dictionary holds, followed through the forms that keep them: a dictionary display, a copy
+    (`dict(T)`, `T.copy()`, `copy.deepcopy(T)`, `{k: list(v) for k, v in T.items()}`), a local assigned once, a module-level
+    constant of one of the modules `trees`, a function of those modules that only returns such a value -> list of tuples, or None"""
+    if depth > 8 or e is None:
+        return None
+    if isinstance(e, ast.Dict):
+        return _int_rows(e)
+    if isinstance(e, ast.Name):
+        if f is not None:
+            vals, augs = _defs(f, e.id)
+            if augs or len(vals) > 1 or (vals and vals[0] is None):
+                return None
+            if vals:
+                return _layout_rows(vals[0], f, trees, depth + 1)
+            if e.id in _params(f):
+                return None
+        for t in trees:
+            c = _module_const(t, e.id)
+            if c is not None:
+                # the table must not be changed in place anywhere in its module
+                if any(isinstance(n, ast.Call) and isinstance(n.func, ast.Attribute) and n.func.attr in lints.MUTATING_METHODS
+                       and _root_name(n.func.value) == e.id for n in ast.walk(t)) or \
+                        any(isinstance(n, ast.Subscript) and isinstance(n.ctx, (ast.Store, ast.Del)) and _root_name(n) == e.id for n in ast.walk(t)):
+                    return None
+                return _layout_rows(c, None, trees, depth + 1)
+        return None
+    if isinstance(e, ast.DictComp) and len(e.generators) == 1 and not e.generators[0].ifs:
+        g = e.generators[0]
+        if isinstance(g.iter, ast.Call) and isinstance(g.iter.func, ast.Attribute) and g.iter.func.attr == "items" and not g.iter.args \
+                and isinstance(g.target, ast.Tuple) and len(g.target.elts) == 2 and all(isinstance(x, ast.Name) for x in g.target.elts):
+            kn, vn = g.target.elts[0].id, g.target.elts[1].id
+            v = e.value
+            while isinstance(v, ast.Call) and isinstance(v.func, ast.Name) and v.func.id in ("list", "tuple") and len(v.args) == 1 and not v.keywords:
+                v = v.args[0]
+            if isinstance(e.key, ast.Name) and e.key.id == kn and isinstance(v, ast.Name) and v.id == vn:
+                return _layout_rows(g.iter.func.value, f, trees, depth + 1)
+        return None
+    if isinstance(e, ast.Call) and not e.keywords:
+        fname = src(e.func)
+        if fname in ("dict", "copy.copy", "copy.deepcopy", "deepcopy", "OrderedDict") and len(e.args) == 1:
+            return _layout_rows(e.args[0], f, trees, depth + 1)
+        if isinstance(e.func, ast.Attribute) and e.func.attr == "copy" and not e.args:
+            return _layout_rows(e.func.value, f, trees, depth + 1)
+        if isinstance(e.func, ast.Name) and not e.args:
+            for t in trees:
+                defs = [st for st in t.body if isinstance(st, ast.FunctionDef) and st.name == e.func.id]
+                if len(defs) == 1 and not defs[0].decorator_list:
+                    body = [b for b in defs[0].body if not (isinstance(b, ast.Expr) and isinstance(b.value, ast.Constant))]
+                    if len(body) == 1 and isinstance(body[0], ast.Return):
+                        return _layout_rows(body[0].value, None, trees, depth + 1)
+    return None
+
+
+def _standard_layouts(chk):
+    """the orderings of the 4-D layouts the set-up code builds its layout handler with.  First the literal dictionaries of setups.py
+    (engine); when they are no longer written there, the dictionary each set-up function hands to getLayoutHandler is followed to where
+    it is written (a table of process_grid.py or setups.py, a function returning a copy of it) -> list of tuples; AnalysisError"""
+    try:
+        O = I.load_layout_tables(chk)
+        return [O[(n, 4)] for n in ("flux_surface", "v_parallel", "poloidal")]
+    except (AnalysisError, KeyError) as e:
+        first = e
+    smod = chk.mod(U.SETUPS)
+    trees = [smod.tree]
+    try:
+        ptree = chk.mod(U.PROCGRID).tree
+        imported = {a.asname or a.name for n in ast.walk(smod.tree) if isinstance(n, ast.ImportFrom) and (n.module or "").split(".")[-1] == "process_grid"
+                    for a in n.names}
+        if imported:
+            trees.append(ptree)
+    except AnalysisError:
+        imported = set()
+    hparams = ["comm", "layouts", "nprocs", "eta_grids"]
+    found = []
+    for q in ("setupCylindricalGrid", "setupFromFile"):
+        f = smod.func(q)
+        hs = [h for h in ast.walk(f) if isinstance(h, ast.Call) and isinstance(h.func, ast.Name) and h.func.id == "getLayoutHandler"]
+        for h in hs:
+            b = _bind(h, hparams)
+            rows = _layout_rows(b.get("layouts"), f, trees) if b else None
+            if rows is None:
+                raise AnalysisError(f"{first}; and the layouts handed to getLayoutHandler in {q} are not followed to a table of orderings")
+            found.append(tuple(sorted(r for r in rows if len(r) == 4)))
+        if not hs:
+            raise AnalysisError(f"{first}; and no getLayoutHandler call in {q}")
+    if len(set(found)) != 1 or not found[0]:
+        raise AnalysisError(f"{first}; and the set-up functions hand different layouts to getLayoutHandler")
+    return list(found[0])
+
+
 def bounds_vs_layouts(chk, nf, tree=None):
     chk.func(U.PROCGRID, GRID)
     fn = nf[GRID]
     kw = dict(file=U.PROCGRID, func=GRID)
     try:
-        O = I.load_layout_tables(chk)
-        std = [O[(n, 4)] for n in ("flux_surface", "v_parallel", "poloidal")]
+        std = _standard_layouts(chk)
     except (AnalysisError, KeyError) as e:
         for k in (0, 1):
             chk.ob("N1-bounds-cover-layouts", fn, f"bound of process direction {k}", None,
@@ -1017,11 +1511,11 @@ def bounds_vs_layouts(chk, nf, tree=None):
     calls = _search_calls(fn)
     b = None
     if calls and len(fparams) == 3 and len(gparams) >= 2:
-        binds = [_bind(c_, fparams) for c_ in calls]
+        binds = [_bind(_expand_star(fn, tree, c_), fparams) for c_ in calls]
         if all(x is not None and len(x) == 3 for x in binds) and len({tuple(ast.dump(x[p_]) for p_ in fparams) for x in binds}) == 1:
             b = binds[0]
     call_st = _stmt_of(calls[0]) if calls else None
-    if b is not None and (call_st is None or not any(k_ == "search" for k_, _e, _s in _result_sources(fn, calls))):
+    if b is not None and (call_st is None or not any(k_ in ("search", "swapped") for k_, _e, _s in _result_sources(fn, calls))):
         b = None
     if b is None:
         for k in (0, 1):
@@ -1049,6 +1543,9 @@ def bounds_vs_layouts(chk, nf, tree=None):
                 if kind == "param":
                     layout_params.add(what)
                     c2 = f"{fparams[k]} = min({npts}[o[{k}]] for the orderings o of the layouts handed in `{what}`)"
+# ASSUMPTION of the VIOLATED verdict below: a layout distributes the dimension at position k of its ordering along process
+# direction k (the convention of getLayoutHandler for a 2-D grid, relied on by every rule of this file), and the position read in
+# `npts[o[pos]]` was extracted from a comprehension without filter over the VALUES of the dictionary (checked by _gen_bound).
                     if pos == k:
                         chk.ob("N1-bounds-cover-layouts", e, c2, True,
                                f"the bound of process direction {k} is the smallest extent among the dimensions at position {k} of every layout "
@@ -1076,6 +1573,10 @@ def bounds_vs_layouts(chk, nf, tree=None):
                    f"the bound `{src(e)[:80]}` is not a minimum over entries `{npts}[d]` with literal d: the dimensions it covers "
                    "cannot be extracted", **kw)
             continue
+# ASSUMPTIONS of the two VIOLATED verdicts below: the expression is the bound the search receives for direction k (followed from the
+# call of the search through names assigned once; `npts` not rebound), it was read completely (only min/max over `npts[<literal>]`;
+# anything else was left undecided above), and `dims` are the dimensions the set-up code really distributes along direction k (read
+# from the dictionaries handed to getLayoutHandler).  A minimum over MORE dimensions is reported too: it refuses grids that exist.
         fun, have = got
         if fun == "max" and len(have) > 1:
             chk.ob("N1-bounds-cover-layouts", e, construct, False,
@@ -1091,6 +1592,32 @@ def bounds_vs_layouts(chk, nf, tree=None):
     e = b[fparams[2]]
     changed = [n for n in ast.walk(fn) if (isinstance(n, ast.AugAssign) and isinstance(n.target, ast.Name) and n.target.id == count)
                or (isinstance(n, ast.Assign) and any(isinstance(t, ast.Name) and t.id == count for t in n.targets))]
+
+    def keeps_value(n):
+        """`count = int(count)` / `count = count`: a conversion, the value handed to the search is still the caller's"""
+        if not (isinstance(n, ast.Assign) and len(n.targets) == 1):
+            return False
+        v = n.value
+        while isinstance(v, ast.Call) and not v.keywords and len(v.args) == 1 and src(v.func) in ("int", "operator.index", "np.int64", "np.intp"):
+            v = v.args[0]
+        return isinstance(v, ast.Name) and v.id == count
+
+    def shifts_value(n):
+        """a store that provably gives the count another value: `count -= c`, `count = count - c`, `count //= c` (c a literal
+        that is not the neutral element), standing before the call of the search"""
+        op = val = None
+        if isinstance(n, ast.AugAssign):
+            op, val = n.op, n.value
+        elif isinstance(n, ast.Assign) and len(n.targets) == 1 and isinstance(n.value, ast.BinOp) and isinstance(n.value.left, ast.Name) \
+                and n.value.left.id == count:
+            op, val = n.value.op, n.value.right
+        if op is None or not _int_const(val):
+            return False
+        neutral = 0 if isinstance(op, (ast.Add, ast.Sub)) else 1 if isinstance(op, (ast.Mult, ast.FloorDiv)) else None
+        if neutral is None or val.value == neutral:
+            return False
+        return call_st is not None and _order(fn, n, call_st) == "before"
+    changed = [n for n in changed if not keeps_value(n)]
     okr = isinstance(e, ast.Name) and e.id == count and not changed
     # the query of the communicator may have moved from the callers into this function: the second parameter is then the
     # communicator itself and the process count its size (the call sites are compared on the communicator they hand in)
@@ -1108,9 +1635,13 @@ def bounds_vs_layouts(chk, nf, tree=None):
                 comm_param, okr = True, True
                 count = e.id
     bad = None
-    if isinstance(e, ast.Name) and e.id == count and changed:
-        bad = (f"the process count is changed (`{src(changed[0])}`) before the search: the grid multiplies to the changed value, not to "
-               "the number of processes of the communicator the caller lays it on")
+    # ASSUMPTIONS of the VIOLATED verdict: (1) the store gives the count ANOTHER value (checked: literal shift / scaling that is not the
+    # neutral element; a conversion `int(count)` is no change, anything else is undecided); (2) it is executed before the call of the
+    # search on some path (checked: it stands before the call statement, possibly under a condition on other arguments).
+    sure = [n for n in changed if shifts_value(n)]
+    if isinstance(e, ast.Name) and e.id == count and sure:
+        bad = (f"the process count is changed (`{src(sure[0])}`, line {sure[0].lineno}) before the search: the grid multiplies to the changed "
+               "value, not to the number of processes of the communicator the caller lays it on")
     chk.pat("N1-bounds-cover-layouts", call_st, f"return {FROM_MAX}(bound1, bound2, mpi_size)", okr,
             "the two bounds and the unchanged process count are handed to the search, each to its own parameter", bad, **kw)
     result_of_search(chk, fn, nf.get(FROM_MAX), calls, npts, count, std, kw)
@@ -1182,6 +1713,20 @@ def _is_subcomm(f, hc, cm):
         exprs = [v for v in vals if v is not None]
     return any(isinstance(n, ast.Call) and isinstance(n.func, ast.Attribute) and n.func.attr in SUBCOMM_CALLS
                for x in exprs for n in ast.walk(x))
+
+
+def _split_receivers(f, hc):
+    """texts of the communicators that are split in the definitions of the communicator expression `hc`"""
+    try:
+        e = ast.parse(hc, mode="eval").body
+    except SyntaxError:
+        return []
+    exprs = [e]
+    if isinstance(e, ast.Name):
+        vals, _ = _defs(f, e.id)
+        exprs = [v for v in vals if v is not None]
+    return [src(n.func.value) for x in exprs for n in ast.walk(x)
+            if isinstance(n, ast.Call) and isinstance(n.func, ast.Attribute) and n.func.attr in SUBCOMM_CALLS]
 
 
 def _same_comm(f, hc, cm):
@@ -1283,6 +1828,42 @@ def _slice_reads(f, exprs, R):
     return reads
 
 
+def _computed_attr_covers(f, st, A, R):
+    """can the store by computed name in statement `st` (`setattr(R, name, value)`) name the attribute `A`?
+    True: the name ranges over every attribute of R (`for name in dir(R)` / vars(R) / R.__dict__) or over a literal list holding A;
+    False: a literal list without A; None: not followed"""
+    calls = [n for n in ast.walk(st) if isinstance(n, ast.Call) and src(n.func) in ("setattr", "object.__setattr__") and len(n.args) == 3]
+    if len(calls) != 1:
+        return None
+    nm = calls[0].args[1]
+    if isinstance(nm, ast.Constant):
+        return nm.value == A
+    if not isinstance(nm, ast.Name):
+        return None
+    loops = [n for n in ast.walk(f) if isinstance(n, ast.For) and any(x is st for x in ast.walk(n))
+             and any(isinstance(x, ast.Name) and x.id == nm.id for x in ast.walk(n.target))]
+    others = [d for d in _name_defs(f, nm.id) if not any(d[1] is lp for lp in loops)]
+    if len(loops) != 1 or others:
+        return None
+    it = loops[0].iter
+    while isinstance(it, ast.Call) and not it.keywords and len(it.args) == 1 and src(it.func) in ("list", "tuple", "sorted", "set", "iter"):
+        it = it.args[0]
+    if isinstance(it, ast.Call) and isinstance(it.func, ast.Attribute) and it.func.attr in ("keys", "items") and not it.args:
+        it = it.func.value
+    if isinstance(it, ast.Name):
+        v, adj = _resolve(f, it)
+        if v is None or adj:
+            return None
+        it = v
+    if isinstance(it, ast.Call) and src(it.func) in ("dir", "vars") and len(it.args) == 1 and src(it.args[0]) == R:
+        return True
+    if isinstance(it, ast.Attribute) and it.attr == "__dict__" and src(it.value) == R:
+        return True
+    if isinstance(it, (ast.Tuple, ast.List, ast.Set)) and it.elts and all(isinstance(x, ast.Constant) and isinstance(x.value, str) for x in it.elts):
+        return A in {x.value for x in it.elts}
+    return None
+
+
 def _same_resolution(chk, f, c, label, sizes, eta_exprs, kw):
     """the attribute `R.A` read for the process grid has the value the grids of the layouts are computed from: no store
     into R between the two reads"""
@@ -1326,9 +1907,22 @@ def _same_resolution(chk, f, c, label, sizes, eta_exprs, kw):
                 continue
             first, second = (f"{GRID} (line {c.lineno})", f"`{src(r_st).splitlines()[0][:60]}` (line {r_st.lineno})") if o1 == "before" \
                 else (f"`{src(r_st).splitlines()[0][:60]}` (line {r_st.lineno})", f"{GRID} (line {c.lineno})")
-            keeps = val is not None and any(isinstance(x, ast.Attribute) and x.attr == A and isinstance(x.value, ast.Name) and x.value.id == R
-                                            for x in ast.walk(val))
-            if between and kind == "store" and not keeps:
+            # ASSUMPTIONS of the VIOLATED verdict: (1) the store lies between the two reads on one path (`between`, from the positions of
+            # the three statements); (2) it can hit the attribute `A` (checked for stores by computed name: the name must range over
+            # every attribute of the object or over a literal list holding `A`); (3) the stored value is not the old value of `R.A`
+            # (checked: the value, followed through locals assigned once, does not read `R.A`).
+            vals = [val] if val is not None else []
+            for x in list(ast.walk(val)) if val is not None else []:
+                if isinstance(x, ast.Name) and isinstance(x.ctx, ast.Load):
+                    v2, _a2 = _resolve(f, x)
+                    if v2 is not None and v2 is not x:
+                        vals.append(v2)
+            keeps = any(isinstance(x, ast.Attribute) and x.attr == A and isinstance(x.value, ast.Name) and x.value.id == R
+                        for v_ in vals for x in ast.walk(v_))
+            hits = True if attr is not None else _computed_attr_covers(f, st, A, R)
+            if between and kind == "store" and not keeps and hits is False:
+                break                      # a store by computed name that cannot name `A`
+            if between and kind == "store" and not keeps and hits:
                 hard.append((st, desc, first, second))
             else:
                 soft.append((st, desc))
@@ -1522,6 +2116,18 @@ def _site(chk, f, c, label, gparams, hparams, via_helper=False, layout_params=()
     if cm is None:
         return undecided(f"the process count `{src(b[gparams[1]])}` is not read as `<communicator>.Get_size()`")
     same = _same_comm(f, hc, cm)
+    # ASSUMPTIONS of the VIOLATED verdict: (1) `hc` is (on some path) a part obtained by splitting `cm` ITSELF (checked: the receiver
+    # of the split call is `cm` or a name for it), so its size is smaller than the size of `cm` on some rank; (2) what is done to the
+    # size afterwards cannot repair that on every rank (checked: only shifts by literals, which give one value on all ranks while the
+    # parts of a split have different sizes; an extra argument handed to the callee, or other arithmetic, is not followed).
+    literal_adj = all((isinstance(a, ast.AugAssign) and _int_const(a.value)) for a in adj) and not extra and \
+        all(_int_const(x.right) or _int_const(x.left) for x in ast.walk(size) if isinstance(x, ast.BinOp)) if size is not None else False
+    split_of = _split_receivers(f, hc)
+    if not same and _is_subcomm(f, hc, cm) and (not (literal_adj or not adjusted) or not split_of
+                                                 or not all(r_ == cm or _same_comm(f, r_, cm) for r_ in split_of)):
+        return undecided(f"the process count is taken from `{cm}`" + (f" (adjusted through {adjusted})" if adjusted else "") +
+                         f" and the layouts are built on `{hc}`, which may be a part of a split communicator: the relation between the "
+                         "two sizes is not followed")
     if not same and _is_subcomm(f, hc, cm):
         through = f" (adjusted through {adjusted})" if adjusted else ""
         chk.ob("N1-call-site", c, construct, False,
@@ -1565,17 +2171,30 @@ def _site(chk, f, c, label, gparams, hparams, via_helper=False, layout_params=()
     if not is_param and (grid_sizes is None or gadj or src(grid_sizes) != "constants.npts"):
         return undecided(f"the grid sizes `{src(b[gparams[0]])}` are not recognised as `constants.npts`")
     tgt = parent(c)
+    order = (0, 1)
     if not (isinstance(tgt, ast.Assign) and len(tgt.targets) == 1 and src(tgt.targets[0]) == hn):
         # the pair may reach the handler through other names: unpacked and packed again, indexed, converted
         order = _pair_order(f, hb[0]["nprocs"], c)
-        if order == (1, 0):
+    # The order of the pair is a contract between three places: the search (returns (direction 0, direction 1) or the reverse),
+    # compute_2d_process_grid (hands it on as it is or reversed) and this function (lays it on the handler).  ASSUMPTION of the
+    # VIOLATED verdict: the number of reversals on the way is odd - all three are extracted, an unknown one is undecided.
+    pre = getattr(chk, "_c20_order", (None, False))[1], getattr(chk, "_c20_grid_swapped", False)
+    sites = chk.__dict__.setdefault("_c20_site_parities", [])
+    if order not in ((0, 1), (1, 0)) or pre[1] is None:
+        sites.append(None)
+        return undecided(f"the result of {GRID} is not the value `{hn}` handed to getLayoutHandler as process grid")
+    where = [w for w, s_ in ((f"{FROM_MAX} returns (direction 1, direction 0)", pre[0]), (f"{GRID} reverses the pair of the search", pre[1]),
+                             (f"`{hn}` holds the two extents computed by {GRID} in swapped order", order == (1, 0))) if s_]
+    sites.append(len(where) % 2 == 0)
+    if len(where) % 2:
+        if order == (1, 0) or pre[1]:
             chk.ob("N1-call-site", handlers[0], construct, False,
-                   f"the process grid handed to getLayoutHandler, `{hn}`, holds the two extents computed by {GRID} in swapped order: the "
+                   f"the process grid handed to getLayoutHandler arrives in swapped order ({'; '.join(where)}): the "
                    "extent checked against the dimensions distributed along process direction 0 is laid on direction 1 and the other way "
                    "round, so a process can be left without points of a distributed dimension", **kw)
-            return
-        if order != (0, 1):
-            return undecided(f"the result of {GRID} is not the value `{hn}` handed to getLayoutHandler as process grid")
+        else:
+            undecided(f"{where[0]} and the pair is laid on the handler as it is (reported by N2-factorisation)")
+        return
     # the error of the search must reach the caller of the set-up function: a handler around the call that goes on with a grid of
     # its own builds the layouts on a grid nobody checked
     for t in [n for n in ast.walk(f) if isinstance(n, ast.Try) and any(x is c for st in n.body for x in ast.walk(st))]:
@@ -1586,7 +2205,13 @@ def _site(chk, f, c, label, gparams, hparams, via_helper=False, layout_params=()
             hd = f"`except {src(h.type)}`" if h.type is not None else "`except`"
             own = [st for st in _preorder(h.body) if isinstance(st, ast.Assign) and any(src(t_) == hn for t_ in st.targets)]
             stops = [n for n in ast.walk(h) if isinstance(n, ast.Call) and src(n.func).split(".")[-1] in ("exit", "_exit", "Abort", "abort")]
-            if own and catches and not stops:
+            # ASSUMPTIONS of the VIOLATED verdict: the handler sees the error of the search (`catches`), does not stop the program or
+            # raise again, and the grid it goes on with is written down in the handler (a literal pair of names / numbers: it was not
+            # computed by another search that could have checked it), and no later statement of the function raises for it
+            literal = own and isinstance(own[0].value, (ast.Tuple, ast.List)) and len(own[0].value.elts) == 2 and \
+                all(isinstance(x, (ast.Name, ast.Constant)) and not (isinstance(x, ast.Constant) and x.value is None) for x in own[0].value.elts)
+            later_raise = [n for n in ast.walk(f) if isinstance(n, ast.Raise) and _order(f, t, _stmt_of(n) or n) == "before"]
+            if own and catches and not stops and literal and not later_raise:
                 chk.ob("N1-call-site", own[0], construct, False,
                        f"{hd} (line {h.lineno}) around {GRID} catches the error raised when no valid process grid exists and goes on with "
                        f"`{src(own[0])[:70]}`: getLayoutHandler is then built on a grid that was not checked against the numbers of points, "
@@ -1614,8 +2239,7 @@ def call_sites(chk, layout_params=(), comm_param=False):
     funcs = [st for st in smod.tree.body if isinstance(st, ast.FunctionDef)]
     fparams = _params(pmod.func(FROM_MAX)) if pmod.has(FROM_MAX) else []
     try:
-        O = I.load_layout_tables(chk)
-        std = [O[(n, 4)] for n in ("flux_surface", "v_parallel", "poloidal")]
+        std = _standard_layouts(chk)
     except (AnalysisError, KeyError):
         std = None
 
@@ -1658,7 +2282,25 @@ def pure_search(chk, tree, fn):
     if not lints.memo_selftest():
         raise AnalysisError("C20: the memoised-result lint no longer recognises its own positive example")
     memo, muts = lints.memoised_result_mutations(tree)
+    # ASSUMPTION of the VIOLATED verdict: the object changed in place IS the object the cache holds.  The alias analysis of the lint
+    # treats a slice `X[a:b]` as a view (true for arrays); for a list (the memoised function returns a list display, a list
+    # comprehension, list(...) or sorted(...)) a slice is a copy, so a function that slices the memoised result before changing it is
+    # not decided here.
+    soft_muts = []
     for f_, node, desc in muts:
+        defs = [n for n in ast.walk(tree) if isinstance(n, ast.FunctionDef) and n.name in memo]
+        returns_list = bool(defs) and all(isinstance(r.value, (ast.List, ast.ListComp)) or
+                                          (isinstance(r.value, ast.Call) and src(r.value.func) in ("list", "sorted"))
+                                          for d in defs for r in ast.walk(d) if isinstance(r, ast.Return))
+        sliced = any(isinstance(n, ast.Subscript) and isinstance(n.slice, ast.Slice) and isinstance(n.ctx, ast.Load) for n in ast.walk(f_))
+        copied = any(isinstance(n, ast.Call) and (src(n.func) in ("copy.copy", "copy.deepcopy") or
+                                                  (isinstance(n.func, ast.Attribute) and n.func.attr == "copy")) for n in ast.walk(f_))
+        if (returns_list and sliced) or copied:
+            soft_muts.append((f_, node, desc))
+            chk.ob("N4-pure-search", node, f"memoised table changed in {f_.name}", None,
+                   desc + f": but {f_.name} also slices or copies values, and a slice of a list is a copy: cannot decide that the object changed "
+                   "is the one the cache holds", func=f_.name, **kw)
+            continue
         chk.ob("N4-pure-search", node, f"memoised table changed in {f_.name}", False,
                desc + ": the cache hands the same object to every later call, so the next call with the same process count starts "
                "from the changed table and can refuse a grid that exists (or return another one)", func=f_.name, **kw)
@@ -1683,6 +2325,12 @@ def pure_search(chk, tree, fn):
                 fill = direct and (isinstance(node, ast.Assign) or (isinstance(node, ast.Call) and node.func.attr in ("setdefault", "update")))
                 if fill:
                     continue
+                # ASSUMPTION of the VIOLATED verdict: the object changed through the alias is the stored one, not a copy (a slice of a
+                # stored list, `.copy()`, copy.copy): a function that also slices or copies is not decided
+                sliced = any((isinstance(n, ast.Subscript) and isinstance(n.slice, ast.Slice) and isinstance(n.ctx, ast.Load)) or
+                             (isinstance(n, ast.Call) and (src(n.func) in ("copy.copy", "copy.deepcopy", "list", "dict", "sorted") or
+                                                           (isinstance(n.func, ast.Attribute) and n.func.attr == "copy"))) for n in ast.walk(f_))
+                direct = direct or sliced
                 nstate += 1
                 nviol += not direct
                 chk.ob("N4-pure-search", node, f"module-level table changed in {f_.name}", None if direct else False,
@@ -1690,14 +2338,19 @@ def pure_search(chk, tree, fn):
                            ": a call changes module-level state; cannot decide that a later call does not read it" if direct else
                            ": the object is kept in a module-level table, so a later call reads the changed object and its answer "
                            "depends on the calls made before"), func=f_.name, **kw)
-    chk.ob("N4-pure-search", fn, "no call changes state that a later call reads", True if not muts and not nstate else False if muts or nviol else None,
+    hard_muts = [m for m in muts if not any(m[1] is s_[1] for s_ in soft_muts)]
+    chk.ob("N4-pure-search", fn, "no call changes state that a later call reads",
+           True if not muts and not nstate else False if hard_muts or nviol else None,
            f"memoised helpers: {sorted(memo) or 'none'}; module-level tables: {sorted(tables) or 'none'}; no in-place change of a "
            "memoised or stored result" if not muts and not nstate else "see the in-place changes reported above",
            func=FROM_MAX, nontrivial=False, **kw)
+    # A `global` / `nonlocal` declaration alone is no defect (a table filled on first use, a call counter): whether a later call READS
+    # something an earlier call stored from its arguments is not followed here, so the declaration is UNDECIDED, never VIOLATED.
     glob = [n for n in ast.walk(tree) if isinstance(n, (ast.Global, ast.Nonlocal))]
-    chk.ob("N4-pure-search", glob[0] if glob else fn, "no global/nonlocal state in process_grid.py", not glob,
+    chk.ob("N4-pure-search", glob[0] if glob else fn, "no global/nonlocal state in process_grid.py", True if not glob else None,
            "the search functions declare no global or nonlocal variable" if not glob else
-           f"`{src(glob[0])}`: the result of a call can depend on earlier calls", func=FROM_MAX, nontrivial=False, **kw)
+           f"`{src(glob[0])}` (line {glob[0].lineno}): a function rebinds module-level state; cannot decide whether the result of a later call "
+           "depends on it (lazy initialisation of a constant table does not, a remembered argument does)", func=FROM_MAX, nontrivial=False, **kw)
 
 
 # ---------------------------------------------------------------------------------------------------------
@@ -1729,6 +2382,10 @@ def _first_loop(fn, P1, P2, M, r1, r2):
     true_base = _canon(ast.parse(f"min({M}, {P1})", mode="eval").body)
     T = f"min({M}, {P1})"
     nxt = blk[j] if j < len(blk) else None
+    # ASSUMPTION of every VIOLATED verdict on the failure guard: the `if` after the scan is the ONLY place where the search can give
+    # up (checked: exactly one `raise` in the function and no `assert`; a second test - a guard split in two, a validation before
+    # the loop - could catch what the first lets through, and is not decided here).
+    gives_up = [n for n in ast.walk(fn) if isinstance(n, (ast.Raise, ast.Assert))]
     if isinstance(nxt, ast.If) and not nxt.orelse and any(isinstance(x, ast.Raise) for x in nxt.body):
         f = _cmp(nxt.test, al)
         if any(_is_nondiv(nxt.test, a, M) for a in al):
@@ -1755,6 +2412,10 @@ def _first_loop(fn, P1, P2, M, r1, r2):
                                   f"with `{T}`: cannot decide that the error is raised exactly when that bound is exceeded")
     else:
         out["guard"] = (None, "the statement after the divisor scan is not `if <scanned value> > <bound>: raise`")
+    if out["guard"][0] is False and len(gives_up) > 1:
+        out["guard"] = (None, f"{len(gives_up)} `raise` / `assert` statements in {fn.name} (lines {sorted(n.lineno for n in gives_up)}): the "
+                              f"test after the scan alone would be wrong ({out['guard'][1][:160]}...), but the conditions under which the search "
+                              "gives up are spread over several tests, which are not composed")
     # ---- factorisation
     start = _scan_start(blk, k, v)
     asg = [n for n in blk[j:] if isinstance(n, ast.Assign) and len(n.targets) == 1 and isinstance(n.targets[0], ast.Name)
@@ -1782,7 +2443,11 @@ def _first_loop(fn, P1, P2, M, r1, r2):
                 why = f"`{src(asg[0])}` is not the quotient `{M} // {e.right.id}`"
         else:
             why = f"`{src(asg[0])}` is not the quotient of {M} by the scanned divisor ({sorted(al)})"
-        if why is None and r1 not in al:
+        # the scanned value may be kept in a name of its own and stored in the returned first extent after the guard (`r1 = v`)
+        late = {n.targets[0].id for n in blk[j:] if isinstance(n, ast.Assign) and len(n.targets) == 1 and isinstance(n.targets[0], ast.Name)
+                and isinstance(n.value, ast.Name) and n.value.id in al}
+        r1_stores = [n for n in ast.walk(w1) if isinstance(n, ast.Name) and isinstance(n.ctx, ast.Store) and n.id == r1]
+        if why is None and r1 not in al and not (r1 in late and len(r1_stores) == 1):
             why = f"the scanned divisor ({sorted(al)}) is not stored in the returned first extent `{r1}`"
         if why is None and start != (r1, 1):
             why = (f"the scan does not start at `{r1} + 1`" + (f" but at `{start[0]} + {start[1]}`" if start else "") +
@@ -1921,7 +2586,18 @@ def _second_loop(fn, w1, P1, P2, M, r1, r2, ctx=None, env=None, first_ok=False):
     for blk, st1, st2 in acc:
         if len(st1) != len(st2):
             lone = (st1 or st2)[0]
-            out["step"] = (False, f"`{src(lone)}` replaces one extent of the grid without the other in the same branch: the pair no longer "
+            # ASSUMPTION of the VIOLATED verdict: the other extent is not brought in line anywhere else before the pair is returned
+            # (checked: no store of it in another block of the loop or after the loop, e.g. `nprocs2 = mpi_size // nprocs1` computed
+            # once at the end - such a form is not decided here)
+            other_nm = r2 if lone in st1 else r1
+            elsewhere = [s for b_, s1_, s2_ in acc if b_ is not blk for s in (s2_ if lone in st1 else s1_)]
+            after = [n for st_ in (fn.body[fn.body.index(w2) + 1:] if w2 in fn.body else [None]) for n in (ast.walk(st_) if st_ is not None else [None])
+                     if n is None or (isinstance(n, ast.Name) and isinstance(n.ctx, ast.Store) and n.id == other_nm)]
+            if elsewhere or after:
+                out["step"] = (None, f"`{src(lone)}` replaces one extent of the grid and `{other_nm}` is stored at another place "
+                                     f"(line {(elsewhere or after)[0].lineno if (elsewhere or after)[0] is not None else '?'}): the pair handed back is not followed")
+                return out
+            out["step"] = (False,f"`{src(lone)}` replaces one extent of the grid without the other in the same branch: the pair no longer "
                                   f"multiplies to the process count `{M}`")
             return out
     if len(acc) != 1 or len(acc[0][1]) != 1:
@@ -2015,6 +2691,9 @@ def _second_loop(fn, w1, P1, P2, M, r1, r2, ctx=None, env=None, first_ok=False):
         # acceptance keeps there
         got2 = (b, "le", P2, 0)
         out["by_order"] = True
+# ASSUMPTION of the VIOLATED verdict below: `g` is the TIGHTEST bound of the candidate known on the path to the acceptance (all `if`
+# tests on the path are collected, a name stored in between drops its facts), so `k > 0` means no test on the path keeps the
+# candidate within its bound.
     for g, nm, bound in ((got1, a, f"min({M}, {P1})"), (got2, b, P2)):
         if g is not None and g[3] > 0:
             out["step"] = (False, f"a candidate is accepted when `{nm} <= {_bound_text(g[2], g[3])}`, beyond its bound `{bound}`: "
@@ -2278,13 +2957,24 @@ def _table_search(fn, P1, P2, M, r1, r2):
         """None when D is the complete increasing table of the divisors of M in 1..min(M, P1); else (verdict, why)"""
         if not (D.hi[0] == want1 and D.lo is not None) or D.after is not None:
             return None, f"the table `{D.text[:80]}` is not the candidates from 1 to `{T}`: cannot decide which candidates are tried"
+# ASSUMPTIONS of the VIOLATED verdicts on the table: the table was read completely by _coll_of (range / arange with literal start,
+# filters recognised one by one, anything else -> not a table), it is the ONLY source of candidates (the loop runs over it and
+# nothing is appended: names changed in place are left out of the environment), and its upper end is written with the same
+# canonical bound `min(M, P1)`.
         if D.hi[1] < 0:
             return False, (f"the table of candidates `{D.text[:80]}` stops at `{_bound_text(T, D.hi[1])}`: a divisor equal to the bound `{T}` is "
                            "admissible but never tried, a valid grid can be refused")
         if D.hi[1] > 0:
             return False, (f"the table of candidates `{D.text[:80]}` runs up to `{_bound_text(T, D.hi[1])}`, beyond the bound `{T}`: a first "
                            "extent larger than the number of points is accepted (a process gets no point of a distributed dimension)")
-        if D.lo > 1:
+        # ASSUMPTION of the VIOLATED verdict: the candidate 1 is not handled before the table is walked (checked: an early exit
+        # `if M <= P2: return 1, M` taken out above is exactly that candidate; any other early exit is not composed -> undecided)
+        if D.lo == 2 and getattr(fn, "_early_covers_one", False) and not getattr(fn, "_early_other", False):
+            pass
+        elif D.lo > 1 and (getattr(fn, "_early_covers_one", False) or getattr(fn, "_early_other", False)):
+            return None, (f"the table of candidates `{D.text[:80]}` starts at {D.lo} and an early exit before the search hands back a grid of its "
+                          "own: whether the candidates below the start are all covered by it is not followed")
+        elif D.lo > 1:
             return False, (f"the table of candidates `{D.text[:80]}` starts at {D.lo}: the first extent 1 is never tried, so the error is raised "
                            f"when no larger divisor fits although the grid (1, {M}) is valid whenever `{M} <= {P2}`")
         if not D.div:
@@ -2347,7 +3037,14 @@ def _table_search(fn, P1, P2, M, r1, r2):
         if not D.div and any((_is_div(t2, x, M) and tk) or (_is_nondiv(t2, x, M) and not tk)
                              for _p, t_, taken in facts or [] for t2, tk in _facts(t_, taken) for x in calias):
             D = D.but(div=True, text=D.text + f" [with `{M} % {c} == 0` tested in the loop]")
-        nofilter = not D.div and D.complete and not any(isinstance(n, ast.Mod) for n in ast.walk(L1))
+        # ASSUMPTION of the "no divisibility test" verdict below: divisibility is tested NOWHERE, in no spelling.  Checked: the table
+        # has no filter at all, the loop holds no `%`, no call other than min/max/int/float/abs (divmod, gcd, fmod ...), no product
+        # (`c * (M // c) == M`), and every `if` in it is a comparison that was read; otherwise the verdict is left undecided.
+        plain_loop = not any(isinstance(n, (ast.Mod, ast.Mult)) or
+                             (isinstance(n, ast.Call) and not (isinstance(n.func, ast.Name) and n.func.id in ("min", "max", "int", "float", "abs")))
+                             for st_ in L1.body for n in ast.walk(st_)) and \
+            all(_cmp(n.test, set(quot) | calias | {r1, r2}) is not None for st_ in L1.body for n in ast.walk(st_) if isinstance(n, ast.If))
+        nofilter = not D.div and D.complete and plain_loop
         tv, twhy = table_verdict(D)
         if adm is None:
             out["guard"] = (None, f"no condition `{M} // {c} <= {P2}` is known to hold at the `break` of the first search loop: cannot decide "
@@ -2564,6 +3261,8 @@ def _early_exits(chk, fn, P, kw):
         ret = st.body[0]
         ok, why = True, (f"`{src(ret)}` under `{src(st.test)}`: the pair multiplies to `{M}` and the extent `{M}` is within the bound of "
                          "its direction under that condition")
+# ASSUMPTIONS of the two VIOLATED verdicts below: every condition on the way to the exit was read (an unread one returns above
+# without a verdict), the parameters are unchanged, and the pair consists of the literal 1 and the process count only.
         if not one and sorted(kinds) != ["count", "one"]:
             ok, why = False, (f"`{src(ret)}` under `{src(st.test)}`: the pair does not multiply to the process count `{M}` "
                               f"(unless `{M}` is 1, which the condition does not say)")
@@ -2575,6 +3274,14 @@ def _early_exits(chk, fn, P, kw):
         chk.ob(rule, st, "early exit hands back a valid grid", ok, why, **kw)
         if not ok:
             return
+        # what the exit takes out of the search that follows: `if M <= P2: return 1, M` is exactly the candidate 1 (admissible iff
+        # its quotient M fits), so a table of candidates that starts at 2 is complete after it; any other exit is remembered as one
+        # the table rules do not compose with
+        own = [_cmp(t2, {M}, tk) for t2, tk in _facts(test, True)]
+        if not neg and kinds == ["one", "count"] and own == [(M, "le", P2, 0)]:
+            fn._early_covers_one = True
+        else:
+            fn._early_other = True
         neg.append((test, False))
         del fn.body[k]
 
@@ -2632,6 +3339,8 @@ def _result_table(chk, fn, tree, P, kw):
         return
     rk, wk, wv = reads[0][2], writes[0][2], writes[0][3]
     rst, wst = reads[0][0][0], writes[0][0][0]
+# ASSUMPTIONS of the two VIOLATED verdicts below: writer and reader are the only uses of the table (counted above), both keys were
+# followed through locals assigned once, and a parameter that is read anywhere in the function influences its result.
     if ast.dump(rk) != ast.dump(wk):
         chk.ob(rule, rst, construct, False,
                f"the table is filled under the key `{src(wk)}` (line {wst.lineno}) but read under `{src(rk)}` (line {rst.lineno}): a call "
@@ -2678,9 +3387,502 @@ def _result_table(chk, fn, tree, P, kw):
         body.remove(st)
 
 
+# ---------------------------------------------------------------------------------------------------------
+# N2-bound-on-every-path: the first extent handed back has been compared with its bound on EVERY path
+# ---------------------------------------------------------------------------------------------------------
+class _Undecidable(Exception):
+    pass
+
+
+def _first_extent_paths(fn, P1, M, r1):
+    """Abstract walk over the structured code of the search.  Per path class and per local (checked, dep, gid, base):
+      checked  the value is known to be within the bound of direction 0: it is the literal 1, `min(.., P1, ..)`, a copy of a checked
+               value, or a test `v <= P1 + k` / `v <= min(M, P1) + k` (k <= 0) holds on the path for it or for a value that is at least
+               as large (`base`);
+      dep      the value depends on P1 through data or control (a statement that computes it, or a test that decides whether it is
+               computed, reads P1);
+      gid      the store that produced the value (copies share it);   base  the value this one is >= (`x = y + c`, `x += c`, c >= 0).
+    Per path class `ctl`: the path took a decision that depends on P1 and that is not known to leave the first extent unbounded.  A
+    decision is known to be harmless when what it establishes on the path is a LOWER bound `x > P1-bound` of a value x >= the first
+    extent (it cannot bound the first extent from above); a test that establishes an upper bound with k <= 0 makes the value checked;
+    every other P1-dependent decision (an unread test, an upper bound with k > 0, a test on an unrelated value), and every call of
+    foreign code, sets `ctl`.
+    -> [(return statement, [(checked, dep, ctl, store that produced the value)])] ; raises _Undecidable on code outside the fragment"""
+    stores = {}
+    NONE = (False, False, None, None)
+
+    def gid(node):
+        stores[id(node)] = node
+        return id(node)
+
+    def reads(e):
+        return {n.id for n in ast.walk(e) if isinstance(n, ast.Name) and isinstance(n.ctx, ast.Load)}
+
+    def dep_of(e, env):
+        return any(n == P1 or (n in env and env[n][1]) for n in reads(e))
+
+    def bounded_expr(e):
+        return isinstance(e, ast.Call) and isinstance(e.func, ast.Name) and e.func.id == "min" and not e.keywords and \
+            any((isinstance(a, ast.Name) and a.id == P1) or bounded_expr(a) for a in e.args)
+
+    def p1_bound(text):
+        try:
+            be = ast.parse(text, mode="eval").body
+        except SyntaxError:
+            return False
+        return (isinstance(be, ast.Name) and be.id == P1) or bounded_expr(be)
+
+    def refine(cls, test, taken):
+        """the class after the test came out `taken`: values then known to be within the bound become checked"""
+        ctl, envt = cls
+        env = dict(envt)
+        for t2, tk in _facts(test, taken):
+            f = _cmp(t2, set(env), tk)
+            if not f or f[1] != "le" or f[3] > 0 or not p1_bound(f[2]):
+                continue
+            g, base = env[f[0]][2], env[f[0]][3]
+            for nm, (c_, d_, g_, b_) in list(env.items()):
+                if g_ == g or (base is not None and g_ == base):
+                    env[nm] = (True, True, g_, b_)         # its range now depends on P1
+        return (ctl, tuple(sorted(env.items(), key=lambda kv: kv[0])))
+
+    def harmless(cls, test, taken):
+        """does the decision leave the first extent unbounded from above, whatever P1 is?  (see the docstring)"""
+        env = dict(cls[1])
+        if isinstance(test, ast.UnaryOp) and isinstance(test.op, ast.Not):
+            return harmless(cls, test.operand, not taken)
+        if isinstance(test, ast.BoolOp):
+            return all(harmless(cls, v, taken) for v in test.values)
+        if not dep_of(test, env):
+            return True
+        f = _cmp(test, set(env), taken)
+        if not f or not p1_bound(f[2]):
+            return False
+        cur = env.get(r1, NONE)
+        same = cur[2] is not None and (env[f[0]][2] == cur[2] or env[f[0]][3] == cur[2])
+        if f[1] == "gt":
+            return same                      # a lower bound of a value >= the first extent
+        return f[3] <= 0                     # an upper bound within the bound: `refine` made the value checked
+
+    def mk(env):
+        return tuple(sorted(env.items(), key=lambda kv: kv[0]))
+
+    def plus_const(v):
+        """`y + c` / `c + y` with c >= 0 -> y"""
+        if isinstance(v, ast.BinOp) and isinstance(v.op, ast.Add):
+            for x, y in ((v.left, v.right), (v.right, v.left)):
+                if isinstance(x, ast.Name) and _int_const(y) and y.value >= 0:
+                    return x.id
+        return None
+
+    def assign(cls, st, ctx):
+        ctl, envt = cls
+        env = dict(envt)
+        if isinstance(st, ast.Assign):
+            v = st.value
+            for t in st.targets:
+                if isinstance(t, ast.Name):
+                    g = gid(st)
+                    if isinstance(v, ast.Name) and v.id in env:
+                        c_, d_, g_, b_ = env[v.id]
+                        env[t.id] = (c_, d_ or ctx, g_, b_)
+                    elif _int_const(v) and v.value == 1:
+                        env[t.id] = (True, ctx, g, g)
+                    elif bounded_expr(v):
+                        env[t.id] = (True, True, g, g)
+                    elif plus_const(v) in env:
+                        c_, d_, g_, b_ = env[plus_const(v)]
+                        env[t.id] = (False, d_ or ctx, g, b_ if b_ is not None else g_)
+                    else:
+                        env[t.id] = (False, dep_of(v, env) or ctx, g, g)
+                elif isinstance(t, (ast.Tuple, ast.List)) and all(isinstance(x, ast.Name) for x in t.elts):
+                    for x in t.elts:
+                        env[x.id] = (False, dep_of(v, env) or ctx, gid(st), gid(st))
+                else:
+                    raise _Undecidable(f"`{src(st)[:60]}` stores into an object")
+        elif isinstance(st, ast.AugAssign):
+            if not isinstance(st.target, ast.Name):
+                raise _Undecidable(f"`{src(st)[:60]}` stores into an object")
+            old = env.get(st.target.id, NONE)
+            g = gid(st)
+            up = isinstance(st.op, ast.Add) and _int_const(st.value) and st.value.value >= 0 and old[2] is not None
+            env[st.target.id] = (False, old[1] or dep_of(st.value, env) or ctx, g, (old[3] if old[3] is not None else old[2]) if up else g)
+        elif isinstance(st, ast.AnnAssign):
+            if not isinstance(st.target, ast.Name) or st.value is None:
+                raise _Undecidable(f"`{src(st)[:60]}`")
+            env[st.target.id] = (False, dep_of(st.value, env) or ctx, gid(st), gid(st))
+        return (ctl, mk(env))
+
+    def decided(cls, test, taken):
+        """the class after the decision: refined, and marked when the decision is not known to be harmless"""
+        c2 = refine(cls, test, taken)
+        return (c2[0] or not harmless(cls, test, taken), c2[1])
+
+    returns = []
+    budget = [6000]
+
+    def run(stmts, classes, ctx):
+        """-> (classes falling through, classes at break, classes at continue)"""
+        brk, cont = set(), set()
+        cur = set(classes)
+        for st in stmts:
+            budget[0] -= 1
+            if budget[0] < 0 or len(cur) > 200:
+                raise _Undecidable("too many path classes")
+            if not cur:
+                break
+            if isinstance(st, (ast.Assign, ast.AugAssign, ast.AnnAssign)):
+                foreign = [n for n in ast.walk(st) if isinstance(n, ast.Call) and not (isinstance(n.func, ast.Name) and n.func.id in _N3_PURE)]
+                cur = {assign(c, st, bool(ctx)) for c in cur}
+                if foreign:
+                    cur = {(True, e_) for _c, e_ in cur}       # a call of unknown code may give up (raise) on its own conditions
+            elif isinstance(st, ast.If):
+                nxt = set()
+                for c in cur:
+                    d = dep_of(st.test, dict(c[1]))
+                    for branch, taken in ((st.body, True), (st.orelse, False)):
+                        f_, b_, k_ = run(branch, {decided(c, st.test, taken)}, ctx or d)
+                        nxt |= f_
+                        brk |= b_
+                        cont |= k_
+                cur = nxt
+            elif isinstance(st, ast.Assert):
+                cur = {decided(c, st.test, True) for c in cur}
+            elif isinstance(st, (ast.While, ast.For)):
+                if st.orelse:
+                    raise _Undecidable("a loop with an `else` branch")
+                is_for = isinstance(st, ast.For)
+                const_true = not is_for and isinstance(st.test, ast.Constant) and bool(st.test.value)
+                head, seen_exit = set(cur), set()
+                for _round in range(40):
+                    body_in = set()
+                    for c in head:
+                        env = dict(c[1])
+                        if is_for:
+                            d = dep_of(st.iter, env)
+                            for x in [n for n in ast.walk(st.target) if isinstance(n, ast.Name)]:
+                                env[x.id] = (False, d or bool(ctx), gid(st), gid(st))
+                            body_in.add(((c[0] or d, mk(env)), d))        # how often the body runs depends on the sequence
+                            seen_exit.add((c[0] or d, c[1]))
+                        else:
+                            d = dep_of(st.test, env)
+                            body_in.add((decided(c, st.test, True), d))
+                            if not const_true:
+                                seen_exit.add(decided(c, st.test, False))
+                    new_head = set(head)
+                    for c2, d in body_in:
+                        f_, b_, k_ = run(st.body, {c2}, ctx or d)
+                        new_head |= f_ | k_
+                        seen_exit |= b_
+                    if new_head == head:
+                        break
+                    head = new_head
+                    if len(head) > 200:
+                        raise _Undecidable("too many path classes in a loop")
+                else:
+                    raise _Undecidable("no fixed point")
+                cur = seen_exit
+            elif isinstance(st, ast.Return):
+                returns.append((st, set(cur)))
+                cur = set()
+            elif isinstance(st, ast.Raise):
+                cur = set()
+            elif isinstance(st, ast.Break):
+                brk |= cur
+                cur = set()
+            elif isinstance(st, ast.Continue):
+                cont |= cur
+                cur = set()
+            elif isinstance(st, ast.Expr) and isinstance(st.value, ast.Constant):
+                continue
+            elif isinstance(st, ast.Pass):
+                continue
+            elif isinstance(st, ast.Expr):
+                cur = {(True, e_) for _c, e_ in cur}           # a bare call: may be a validation that gives up
+            else:
+                raise _Undecidable(f"`{src(st).splitlines()[0][:60]}` (line {st.lineno})")
+        return cur, brk, cont
+    fall, b_, k_ = run(fn.body, {(False, ())}, False)
+    out = []
+    for ret, classes in returns:
+        vals = []
+        for ctl, envt in classes:
+            env = dict(envt)
+            c_, d_, g_, _b = env.get(r1, NONE)
+            vals.append((c_, d_, ctl, stores.get(g_)))
+        out.append((ret, vals))
+    return out, bool(fall)
+
+
+def bound_on_every_path(chk, fn, P1, P2, M, r1, kw):
+    """HOLDS when every value of the first extent that reaches a `return` was compared with its bound; VIOLATED when a path exists on
+    which (1) it never is, (2) the value does not depend on that bound in any way (data or control: no statement that computes it, and
+    no test that decides whether it is computed, reads `P1`), and (3) the path passes no place where the function gives up under a
+    condition depending on `P1`.  Then the same path is taken, with the same first extent, whatever `P1` is: for a `P1` below that value
+    the grid exceeds the bound and no error is raised.  (Assumed, not proved: some arguments follow the path with a first extent
+    above 1 - the diagnosis names the path.)  Anything else: silent, the rules on the shape of the search decide."""
+    rule = "N2-bound-on-every-path"
+    construct = f"`{r1}` is within `min({M}, {P1})` on every path to the return"
+    if {P1, P2, M} & _written(fn):
+        return
+    try:
+        rets, falls = _first_extent_paths(fn, P1, M, r1)
+    except (_Undecidable, RecursionError):
+        return
+    if falls or not rets:
+        return
+    allv = [(ret, v) for ret, vals in rets for v in vals]
+    if allv and all(v[0] for _r, v in allv):
+        chk.ob(rule, rets[0][0], construct, True,
+               f"on every path to a `return` the value of `{r1}` is the literal 1 or has passed a comparison with `{P1}` "
+               f"({len(allv)} path classes examined)", **kw)
+        return
+    bad = [(ret, v) for ret, v in allv if not v[0] and not v[1] and not v[2] and v[3] is not None]
+    if not bad:
+        return
+    ret, (c_, d_, ctl, origin) = bad[0]
+    guards = sorted({n.lineno for n in ast.walk(fn) if isinstance(n, (ast.If, ast.While)) and P1 in {x.id for x in ast.walk(n.test) if isinstance(x, ast.Name)}})
+    gives = sorted({n.lineno for n in ast.walk(fn) if isinstance(n, (ast.Raise, ast.Assert))})
+    chk.ob(rule, origin, construct, False,
+           f"`{src(origin).splitlines()[0][:70]}` (line {origin.lineno}) gives `{r1}` a value that does not depend on `{P1}`, and a path leads from "
+           f"there to `{src(ret)[:40]}` (line {ret.lineno}) on which `{r1}` is never compared with `{P1}` and which passes none of the places "
+           f"where the function gives up (lines {gives or 'none'}; tests that read `{P1}`: lines {guards or 'none'} - they lie inside loops this path "
+           f"does not enter, or concern other values): on that path the same grid is handed back whatever `{P1}` is, so for a `{P1}` below "
+           f"`{r1}` a process gets no point of a dimension distributed along direction 0 and the error required when no valid factorisation "
+           "exists is not raised", **kw)
+
+
+# ---------------------------------------------------------------------------------------------------------
+# N3: what a "stuck iteration" diagnosis assumes, and how each assumption is checked
+# ---------------------------------------------------------------------------------------------------------
+# lints.stuck_iterations returns the paths through one iteration that store none of the loop-carried NAMES.  "The same iteration
+# repeats forever" follows only when
+#  (S1) the names are the whole state: nothing the iteration reads lives in an object (attribute, element), an iterator (`next`), or
+#       behind a call.  Checked by `_state_model_gaps`: the loop may contain only names, literals, arithmetic, comparisons and calls of
+#       pure builtins; anything else -> UNDECIDED.
+#  (S2) the path can be taken: its decisions (with what the inner loops executed on the way establish on leaving) are jointly
+#       satisfiable.  Checked by `_path_feasible`, a small decision procedure over atoms `v <= B + k`, `v > B + k` (B a parameter or a
+#       number; `min`/`max` bounds split) and `M % v == 0` / `!= 0`: feasible -> VIOLATED with the atoms quoted; contradictory -> the
+#       path does not exist; an atom outside that fragment, two related variables, a bound that is a local -> UNDECIDED.
+_N3_PURE = {"min", "max", "abs", "int", "float", "len", "round", "bool"}
+
+
+def _state_model_gaps(lp):
+    """constructs in the loop that the name-based model of the loop-carried state does not cover -> [description]"""
+    gaps = []
+    for n in ast.walk(lp):
+        if isinstance(n, ast.Call):
+            if not (isinstance(n.func, ast.Name) and n.func.id in _N3_PURE) or n.keywords or any(isinstance(a, ast.Starred) for a in n.args):
+                gaps.append(f"the call `{src(n)[:50]}` (line {n.lineno})")
+        elif isinstance(n, (ast.Attribute, ast.Subscript)):
+            gaps.append(f"`{src(n)[:50]}` (line {n.lineno}): state read from or kept in an object")
+        elif isinstance(n, (ast.NamedExpr, ast.Yield, ast.YieldFrom, ast.Await, ast.Lambda, ast.ListComp, ast.SetComp, ast.DictComp, ast.GeneratorExp,
+                            ast.Starred, ast.Try, ast.With, ast.For, ast.FunctionDef, ast.Global, ast.Nonlocal, ast.Delete)):
+            gaps.append(f"`{src(n).splitlines()[0][:50]}` (line {getattr(n, 'lineno', '?')})")
+    return gaps
+
+
+def _path_items(lp, dec):
+    """the statements executed and the decisions taken, in order, on the iteration path described by `dec` -> list of
+    ('stmt', statement) / ('dec', test, taken); None when the path cannot be replayed"""
+    taken = {id(t): v for t, v in dec}
+    items = []
+
+    def walk(stmts):
+        for st in stmts:
+            if isinstance(st, ast.If):
+                if id(st.test) not in taken:
+                    return None
+                items.append(("dec", st.test, taken[id(st.test)]))
+                r = walk(st.body if taken[id(st.test)] else st.orelse)
+                if r is not True:
+                    return r
+            elif isinstance(st, (ast.Break, ast.Return, ast.Raise)):
+                return None
+            elif isinstance(st, ast.Continue):
+                return "back"
+            else:
+                items.append(("stmt", st))
+        return True
+    r = walk(lp.body)
+    return items if r in (True, "back") else None
+
+
+def _div_atom(t):
+    """`A % B != 0`, `A % B == 0`, `A % B`, `A % B > 0`, `A % B < 1` with names A, B -> (A, B, divisible when the test is true)"""
+    def mod(e):
+        return (e.left.id, e.right.id) if isinstance(e, ast.BinOp) and isinstance(e.op, ast.Mod) and isinstance(e.left, ast.Name) \
+            and isinstance(e.right, ast.Name) else None
+    if mod(t):
+        return mod(t) + (False,)
+    if isinstance(t, ast.Compare) and len(t.ops) == 1:
+        l, op, r = t.left, t.ops[0], t.comparators[0]
+        if mod(r) and _int_const(l):
+            l, r = r, l
+            op = {ast.Lt: ast.Gt, ast.Gt: ast.Lt, ast.LtE: ast.GtE, ast.GtE: ast.LtE}.get(type(op), type(op))()
+        if mod(l) and _int_const(r):
+            c = r.value
+            if (isinstance(op, ast.Eq) and c == 0) or (isinstance(op, ast.Lt) and c == 1) or (isinstance(op, ast.LtE) and c == 0):
+                return mod(l) + (True,)
+            if (isinstance(op, ast.NotEq) and c == 0) or (isinstance(op, ast.Gt) and c == 0) or (isinstance(op, ast.GtE) and c == 1):
+                return mod(l) + (False,)
+    return None
+
+
+def _dnf(test, taken, ver, local_names):
+    """the decision as a disjunction of conjunctions of atoms; None when a part is outside the fragment.
+    atoms: ('cmp', (name, version), 'le' | 'gt', base text, k)   /   ('div', (A, version), (B, version), divisible)"""
+    if isinstance(test, ast.UnaryOp) and isinstance(test.op, ast.Not):
+        return _dnf(test.operand, not taken, ver, local_names)
+    if isinstance(test, ast.BoolOp):
+        subs = [_dnf(v, taken, ver, local_names) for v in test.values]
+        if any(s is None for s in subs):
+            return None
+        if isinstance(test.op, ast.And) == taken:        # conjunction
+            out = [[]]
+            for s in subs:
+                out = [a + b for a in out for b in s]
+                if len(out) > 64:
+                    return None
+            return out
+        return [c for s in subs for c in s]
+    if isinstance(test, ast.Constant):
+        return [[]] if bool(test.value) == taken else []
+    d = _div_atom(test)
+    if d is not None:
+        A, B, divisible = d
+        return [[("div", (A, ver.get(A, 0)), (B, ver.get(B, 0)), divisible == taken)]]
+    f = _cmp(test, local_names, taken)
+    if f is None:
+        return None
+    nm, kind, base, k = f
+    try:
+        be = ast.parse(base, mode="eval").body
+    except SyntaxError:
+        return None
+    key = (nm, ver.get(nm, 0))
+
+    def atom(b, kk):
+        if _int_const(b):
+            return ("cmp", key, kind, "", kk + b.value)
+        if isinstance(b, ast.Name):
+            return ("cmp", key, kind, (b.id, ver.get(b.id, 0)), kk)
+        return None
+    if isinstance(be, ast.Call) and isinstance(be.func, ast.Name) and be.func.id in ("min", "max") and not be.keywords and be.args \
+            and not any(isinstance(a, ast.Starred) for a in be.args):
+        parts = [atom(a, k) for a in be.args]
+        if any(p is None for p in parts):
+            return None
+        # v <= min(a, b): both ; v > min(a, b): one of them ; max: the other way round
+        conj = (be.func.id == "min") == (kind == "le")
+        return [parts] if conj else [[p] for p in parts]
+    a = atom(be, k)
+    return [[a]] if a is not None else None
+
+
+def _path_feasible(fn, lp, dec):
+    """can the iteration path be taken?  -> (True, atoms quoted) / (False, why) / (None, what is not modelled)"""
+    items = _path_items(lp, dec)
+    if items is None:
+        return None, "the path could not be replayed statement by statement"
+    params = set(_params(fn)) | {a.arg for a in fn.args.kwonlyargs}
+    local_names = {n.id for n in ast.walk(fn) if isinstance(n, ast.Name) and isinstance(n.ctx, ast.Store)} - params
+    if params & {n.id for n in ast.walk(fn) if isinstance(n, ast.Name) and isinstance(n.ctx, ast.Store)}:
+        return None, "a parameter is changed in the function"
+    ver = {}
+    clauses = []                        # each a DNF
+    first = _dnf(lp.test, True, ver, local_names)
+    if first is None:
+        return None, f"the loop test `{src(lp.test)[:60]}` is outside the modelled fragment"
+    clauses.append(first)
+    for it in items:
+        if it[0] == "dec":
+            d = _dnf(it[1], it[2], ver, local_names)
+            if d is None:
+                return None, f"the decision `{src(it[1])[:60]}` is outside the modelled fragment (comparisons of a local with a parameter, " \
+                             "divisibility tests)"
+            clauses.append(d)
+            continue
+        st = it[1]
+        for nm in {n.id for n in ast.walk(st) if isinstance(n, ast.Name) and isinstance(n.ctx, (ast.Store, ast.Del))}:
+            ver[nm] = ver.get(nm, 0) + 1
+        if isinstance(st, ast.While) and not st.orelse and not any(isinstance(n, (ast.Break, ast.Return)) for n in ast.walk(st)):
+            # on leaving an inner loop its test is false (for the values the names have then)
+            d = _dnf(st.test, False, ver, local_names)
+            if d is not None:
+                clauses.append(d)
+    conjs = [[]]
+    for d in clauses:
+        conjs = [a + b for a in conjs for b in d]
+        if len(conjs) > 256:
+            return None, "too many cases"
+    unknown = None
+    for c in conjs:
+        verdict, text = _conj_consistent(c, local_names)
+        if verdict is True:
+            return True, text
+        if verdict is None:
+            unknown = text
+    if unknown is not None:
+        return None, unknown
+    return False, "the decisions on the path contradict each other"
+
+
+def _conj_consistent(atoms, local_names):
+    """one conjunction of atoms: True (satisfiable for suitable arguments, with the atoms as text) / False / None (not modelled)"""
+    def show(a):
+        if a[0] == "cmp":
+            b = a[3][0] if a[3] else ""
+            rhs = (_bound_text(b, a[4]) if b else str(a[4]))
+            return f"{a[1][0]} {'<=' if a[2] == 'le' else '>'} {rhs}"
+        return f"{a[1][0]} % {a[2][0]} {'==' if a[3] else '!='} 0"
+    text = ", ".join(dict.fromkeys(show(a) for a in atoms)) or "no condition"
+    lo, hi = {}, {}
+    for a in atoms:
+        if a[0] != "cmp":
+            continue
+        key = (a[1], a[3])
+        if a[2] == "le":
+            hi[key] = min(hi.get(key, a[4]), a[4])
+        else:
+            lo[key] = max(lo.get(key, a[4]), a[4])
+    for key in lo:
+        if key in hi and lo[key] >= hi[key]:
+            return False, text
+    divs = {}
+    for a in atoms:
+        if a[0] == "div":
+            if divs.setdefault((a[1], a[2]), a[3]) != a[3]:
+                return False, text
+    # beyond this point the conjunction is not contradictory on its face; it is SATISFIABLE only inside the fragment where the
+    # quantities are independent: one local variable, compared with parameters (free) and numbers
+    variables = {a[1] for a in atoms if a[0] == "cmp"} | {a[2] for a in atoms if a[0] == "div"}
+    if len(variables) > 1:
+        return None, f"the decisions concern several values ({sorted(v[0] for v in variables)}) whose relation is not modelled"
+    for a in atoms:
+        if a[0] == "cmp" and a[3] and a[3][0] in local_names:
+            return None, f"`{show(a)}` compares with the local `{a[3][0]}`, whose value is not modelled"
+        if a[0] == "div" and a[1][0] in local_names:
+            return None, f"`{show(a)}` divides the local `{a[1][0]}`, whose value is not modelled"
+    for (var, base), k in hi.items():
+        if not base and k < 2 and any(a[0] == "div" and a[2] == var and not a[3] for a in atoms):
+            return False, text           # v <= 1 divides everything
+        if not base and k < 1:
+            return None, f"`{var[0]} <= {k}`: outside the admissible range of extents"
+    return True, text
+
+
 def search_rules(chk, fn, nf_tree):
     kw = dict(file=U.PROCGRID, func=FROM_MAX)
     P = _params(fn)
+    # ASSUMPTION of every rule below: the three parameters are (bound of direction 0, bound of direction 1, process count) in that
+    # order.  Checked by role: the process count is the one parameter that is divided (`M % v`, `M // v`); the bounds never are.  (Which
+    # of the two bounds belongs to which direction is fixed by the comparisons: the quotient is compared with the second.)
+    divided = {n.left.id for n in ast.walk(fn) if isinstance(n, ast.BinOp) and isinstance(n.op, (ast.Mod, ast.FloorDiv))
+               and isinstance(n.left, ast.Name) and n.left.id in P}
+    roles_ok = len(P) == 3 and (divided == {P[2]} or not divided)
+    if len(P) == 3 and not roles_ok:
+        P = P + ["<roles of the parameters not recognised>"]          # no rule below applies to a function of four parameters
     if len(P) == 3:
         _result_table(chk, fn, nf_tree, P, kw)
         _early_exits(chk, fn, P, kw)
@@ -2727,8 +3929,26 @@ def search_rules(chk, fn, nf_tree):
             second = dict(second, step=(None, why) if second["step"][0] is not False else second["step"])
             if first["fact"][0] is True:
                 first = dict(first, fact=(None, why))
-    chk.pat("N2-factorisation", rets[0] if rets else fn, "return nprocs1, nprocs2", bool(pair) and not order_bad,
-            "the pair is returned in (direction 0, direction 1) order", order_bad, nontrivial=False, **kw)
+    # The order of the returned pair is a contract between the search, compute_2d_process_grid and the set-up functions that lay the
+    # pair on the layout handler: it is decided END TO END (see `_site`), after the call sites have been looked at.  ASSUMPTION of the
+    # VIOLATED verdict: the swap is not undone on the way to getLayoutHandler (checked there by composing the three places).
+    def emit_order(site_parities):
+        """site_parities: per call site True (the pair arrives in (direction 0, direction 1) order) / False / None"""
+        node = rets[0] if rets else fn
+        construct = "return nprocs1, nprocs2"
+        if not pair or not order_bad:
+            chk.pat("N2-factorisation", node, construct, bool(pair), "the pair is returned in (direction 0, direction 1) order", None,
+                    nontrivial=False, **kw)
+        elif site_parities and all(p is True for p in site_parities):
+            chk.ob("N2-factorisation", node, construct, True,
+                   "the pair is returned in (direction 1, direction 0) order and every call site that lays it on a layout handler swaps it "
+                   "back: each extent reaches the direction whose bound it was checked against", nontrivial=False, **kw)
+        elif any(p is False for p in site_parities):
+            chk.ob("N2-factorisation", node, construct, False, order_bad, nontrivial=False, **kw)
+        else:
+            chk.ob("N2-factorisation", node, construct, None,
+                   order_bad + " - unless the callers swap the pair back, which could not be followed", nontrivial=False, **kw)
+    chk._c20_order = (emit_order, bool(pair) and bool(order_bad))
     und = "the function does not end in `return <first extent>, <second extent>` of two local names (or has not three parameters)"
     g_ok, g_why = first["guard"] if first else (None, und)
     f_ok, f_why = first["fact"] if first else (None, und)
@@ -2739,6 +3959,17 @@ def search_rules(chk, fn, nf_tree):
     own = {st.name for st in nf_tree.body if isinstance(st, ast.FunctionDef)} | set(dir(builtins))
     closed = not any(isinstance(n, (ast.Raise, ast.Assert)) or
                      (isinstance(n, ast.Call) and not (isinstance(n.func, ast.Name) and n.func.id in own)) for n in ast.walk(nf_tree))
+    # ASSUMPTION of the "true division" verdicts: the float quotient is handed back as it is.  Checked: no conversion (int, round,
+    # floor, trunc, `// 1`) is applied to any value anywhere in the function; with one present the verdict is left undecided.
+    converts = [n for n in ast.walk(fn) if isinstance(n, ast.Call) and src(n.func).split(".")[-1] in ("int", "round", "floor", "trunc", "ceil", "int64", "intp", "astype")]
+    if converts:
+        if f_ok is False and "true division" in f_why:
+            f_ok, f_why = None, f_why + f" - unless `{src(converts[0])[:40]}` (line {converts[0].lineno}) converts it back, which is not followed"
+        if s_ok is False and "true division" in s_why:
+            s_ok, s_why = None, s_why + f" - unless `{src(converts[0])[:40]}` (line {converts[0].lineno}) converts it back, which is not followed"
+    # ASSUMPTION of the "raises no error at all" verdict: giving up can only be expressed in process_grid.py by raise / assert / a call
+    # of foreign code (all three counted in `closed`), and the pair is the only thing the function hands back (every `return` returns
+    # the same two names: no sentinel a caller could turn into the error).
     if g_ok is None and closed and first and first["scan"] is not None:
         g_ok, g_why = False, ("process_grid.py raises no error at all (no raise, assert, or call of foreign code): when no divisor within the bound exists the scan result is returned "
                               "as if it were a valid grid")
@@ -2746,6 +3977,8 @@ def search_rules(chk, fn, nf_tree):
     chk.ob("N2-failure-guard", node, "raise exactly when no divisor <= bound exists", g_ok, g_why, **kw)
     chk.ob("N2-factorisation", w1 or fn, "nprocs2 = mpi_size // nprocs1 for a divisor nprocs1", f_ok, f_why, **kw)
     chk.ob("N2-improvement-step", w2 or fn, "candidate accepted only within both bounds, as a pair", s_ok, s_why, **kw)
+    if pair:
+        bound_on_every_path(chk, fn, P1, P2, M, r1, kw)
 
     # N3: no iteration of a search loop can leave the loop-carried state unchanged (it would repeat forever)
     mono = bool(second and second["mono"] and f_ok is True and s_ok is True and second["cand"] and second["cand"][1])
@@ -2770,12 +4003,29 @@ def search_rules(chk, fn, nf_tree):
                             discharged = True
             if discharged:
                 continue
-            chk.ob("N3-no-stuck-iteration", dec[-1][0] if dec else lp, f"iteration path ending at {end}", None if shape else False,
-                   "the state-preserving path of the refinement loop is infeasible only because new_n2 <= nprocs2 <= max_proc2; the statements "
-                   "carrying that argument (first search loop, candidate scan starting at nprocs1 + 1, new_n2 = mpi_size // new_n1, acceptance "
-                   "within both bounds) were not all recognised" if shape else
-                   "the path " + " / ".join(f"`{src(t)}` is {v}" for t, v in dec) + f" reaches the next iteration ({end}) without changing any of the "
-                   f"loop-carried values {sorted(carried)}: the same iteration repeats forever, the search does not terminate", **kw)
+            path_text = "the path " + " / ".join(f"`{src(t)}` is {v}" for t, v in dec) + f" reaches the next iteration ({end}) without " \
+                f"changing any of the loop-carried names {sorted(carried)}"
+            if shape:
+                verdict, why = None, (
+                    "the state-preserving path of the refinement loop is infeasible only because new_n2 <= nprocs2 <= max_proc2; the statements "
+                    "carrying that argument (first search loop, candidate scan starting at nprocs1 + 1, new_n2 = mpi_size // new_n1, acceptance "
+                    "within both bounds) were not all recognised")
+            else:
+                # see the comment above `_state_model_gaps`: (S1) the names are the whole state, (S2) the path can be taken
+                gaps = _state_model_gaps(lp)
+                feasible, ftext = (None, "") if gaps else _path_feasible(fn, lp, dec)
+                if gaps:
+                    verdict, why = None, (f"{path_text}; but the loop holds {gaps[0]}" + (f" and {len(gaps) - 1} more such constructs" if len(gaps) > 1 else "") +
+                                          ": the names are not known to be the whole state of the iteration, and the decisions are not "
+                                          "modelled, so neither that the path repeats nor that it can be taken is established")
+                elif feasible is False:
+                    continue
+                elif feasible is None:
+                    verdict, why = None, f"{path_text}; cannot decide that the path can be taken: {ftext}"
+                else:
+                    verdict, why = False, (f"{path_text}, and its decisions can hold together ({ftext}; the bounds are arguments of the "
+                                           "function): the same iteration repeats forever, the search does not terminate")
+            chk.ob("N3-no-stuck-iteration", dec[-1][0] if dec else lp, f"iteration path ending at {end}", verdict, why, **kw)
         chk.ob("N3-no-stuck-iteration", lp, f"while {src(lp.test)[:60]}", True, f"{npaths} iteration paths to the back edge examined; "
                f"loop-carried values {sorted(carried)}", nontrivial=False, **kw)
     # a `for` loop ends when its sequence does: the sequence must be a finite one that the body does not extend
@@ -2827,6 +4077,8 @@ def run(chk):
     nf_tree, nf = _normal_form(mod.tree, (GRID, FROM_MAX), callers)
     # the purity rule needs no recognition of the search: it runs first, so its verdict stands whatever the other rules can decide
     pure_search(chk, mod.tree, mod.func(FROM_MAX))
+    # the search is analysed first: the order in which it returns the pair is needed where the pair is laid on the layout handler
+    search_rules(chk, nf[FROM_MAX], nf_tree)
     if GRID in nf:
         layout_params, comm_param = bounds_vs_layouts(chk, nf, nf_tree) or (set(), False)
     else:
@@ -2837,7 +4089,7 @@ def run(chk):
                    f"{GRID} is called by the set-up code but not defined in {U.PROCGRID}: the bounds it hands to the search cannot be read",
                    file=U.PROCGRID, func="<module>")
     call_sites(chk, layout_params, comm_param)
-    search_rules(chk, nf[FROM_MAX], nf_tree)
+    chk._c20_order[0](getattr(chk, "_c20_site_parities", []))
     chk.floor("N1-", 4)
     chk.floor("N2-", 4)
     chk.floor("N3-", 1)
